@@ -1,6 +1,7 @@
-(* TriviaProofs.v -- C15 (comments stay in place) for the re-lexed pretty output: the trivia
-   lists at the statement boundaries of the tree parsed back from the formatted text are those
-   of the source tree, up to [norm_boundaries].
+(* TriviaProofs.v -- C15 (comments stay in place) and C06 (idempotence) for the re-lexed pretty
+   output: the trivia lists at the statement boundaries of the tree parsed back from the formatted
+   text are those of the source tree, up to [norm_boundaries]; formatting that tree again gives
+   the same text byte for byte.
 
    Method: PrettyProofs.v with a stronger invariant.
    * TrivLex: the trivia list the lexer collects over a run of trivia is a function [tcm] of the
@@ -9,7 +10,10 @@
    * TrivWr: [tcm] of the gaps the pretty writer puts in front of a token.
    * TrivJ: the per-construct invariant of PrettyProofs.PrettyJ with, in addition, the trivia
      list of the first token and the boundary trivia of the re-lexed tree.
-   * main part and top level: TrimSpace at both ends. *)
+     For C06 the invariant also says how the re-lexed tree is printed ([WX]: leading comments, then
+     operations which, run behind the gap of the source tree, write the same text).
+   * main part and top level: TrimSpace at both ends; the writer does not look at the start of
+     its buffer ([sim_run]), so the trimmed blank lines in front of the first token do not matter. *)
 Require Import Base GoOps Token Lexer LexSpec Tree Writer PrinterLib Compile Parser Grammar
   PrintSpec CommentSpec RelexSpec TokenSpec WriterSpec.
 Require Import Gen.Tables Gen.Preds Gen.Printer.
@@ -447,6 +451,21 @@ Proof.
            (word_tsafe _ _ H W NI NF) G Hl).
 Qed.
 
+Lemma P_word_c ty lit g X K l :
+  relex_word ty lit = true -> is_word_type ty = true -> ty <> T_INT -> ty <> T_FLOAT ->
+  is_ident_char (hd 0%N (rta X K)) = false -> wgap g -> l_rest l = rta (g ++ lit ++ X) K ->
+  exists t l', lexes l [t] l' /\ t_type t = ty /\ t_lit t = lit /\ (has_lf g = false -> t_nl t = false) /\
+               l_rest l' = rta X K /\ t_comments t = tcm g.
+Proof.
+  intros H W NI NF HK G Hl.
+  destruct (lex1_word _ _ (rta X K) H W NI NF HK) as (HL & L1 & _).
+  destruct (word_chars _ _ H W NI NF) as [_ Ne].
+  destruct (letter_facts _ HL) as (F1 & F2 & F3).
+  assert (Nt : ty <> T_EOF) by (intro E; rewrite E in W; discriminate W).
+  exact (S_lex_c lit ty lit g X K l L1 (tstart_ns lit _ _ eq_refl Ne F1 F2) Ne Nt
+           (word_tsafe _ _ H W NI NF) F1 F3 G Hl).
+Qed.
+
 Lemma P_number0_c ty lit gs X K l :
   relex_word ty lit = true -> (ty = T_INT \/ ty = T_FLOAT) -> (ty = T_FLOAT -> go_float_ok lit = true) ->
   tsafe lit -> kont (rta X K) -> trv gs -> l_rest l = gs ++ rta (lit ++ X) K ->
@@ -765,6 +784,145 @@ Proof.
   rewrite app_nil_r. apply tcm_dwe_rc0; assumption.
 Qed.
 
+(* ---------- the text level: TrimSpace at the end ---------- *)
+
+Lemma rc0_nil_inv i l : rc0 i l = [] -> l = [[]] \/ l = [].
+Proof.
+  destruct l as [|c l']; [auto|]. cbn [rc0]. intro H. apply app_eq_nil in H as [H1 H2].
+  destruct c; [|discriminate H1]. destruct l'; [auto|discriminate H2].
+Qed.
+
+Lemma tb_tb l : tb (tb l) = tb l.
+Proof.
+  unfold tb. rewrite rev_involutive. f_equal.
+  generalize (rev l). intro x. induction x as [|c x IH]; [reflexivity|]. cbn [drop_blank_items].
+  destruct (is_blank_item c) eqn:E; [exact IH|]. cbn [drop_blank_items]. rewrite E. reflexivity.
+Qed.
+
+Lemma dwe_rc0 i : forallb isWhitespace i = true ->
+  forall cs c, TRM (c :: cs) -> dwe is_space_go (rc0 i (c :: cs)) = rc0 i (tb (c :: cs)).
+Proof.
+  intros Wi. induction cs as [|d cs IH]; intros c R; inversion R as [|? ? Rc Rcs]; subst.
+  - cbn [rc0 render_comments]. rewrite app_nil_r, (dwe_lc c Rc), tb_cons. cbn [tb rev drop_blank_items].
+    destruct c as [|c0 c']; [reflexivity|]. cbn [is_blank_item rc0 render_comments]. rewrite app_nil_r. reflexivity.
+  - specialize (IH d Rcs). cbn [rc0] in IH |- *. rewrite render_cons, tb_cons.
+    rewrite dwe_app, (dwe_app is_space_go (LF :: i)), IH.
+    destruct (tb (d :: cs)) as [|x r] eqn:T.
+    + cbn [rc0]. rewrite (dwe_all is_space_go (LF :: i)) by (cbn [forallb]; rewrite (ws_all_space i Wi); reflexivity).
+      rewrite (dwe_lc c Rc). destruct c as [|c0 c']; [reflexivity|]. cbn [is_blank_item rc0 render_comments].
+      rewrite app_nil_r. reflexivity.
+    + assert (Ne : rc0 i (x :: r) <> []).
+      { intro E. destruct (rc0_nil_inv _ _ E) as [Q|Q]; [|discriminate Q]. injection Q as -> ->.
+        (* tb never ends in a blank item *)
+        pose proof (tb_tb (d :: cs)) as Q. rewrite T in Q. discriminate Q. }
+      destruct (rc0 i (x :: r)) as [|y q] eqn:E0; [congruence|]. cbn [rc0]. rewrite render_cons, <- E0. reflexivity.
+Qed.
+
+Lemma dwe_rc0_all i l : forallb isWhitespace i = true -> TRM l -> dwe is_space_go (rc0 i l) = rc0 i (tb l).
+Proof. intros Wi R. destruct l as [|c cs]; [reflexivity|]. apply dwe_rc0; assumption. Qed.
+
+Lemma tb_hd c cs x r : tb (c :: cs) = x :: r -> x = c.
+Proof. rewrite tb_cons. destruct (tb cs); [destruct (is_blank_item c); [discriminate|]|]; intro H; injection H as <- _; reflexivity. Qed.
+
+Lemma TRM_tb l : TRM l -> TRM (tb l).
+Proof.
+  intro R. unfold tb. apply Forall_rev. apply drop_blank_Forall. apply Forall_rev. exact R.
+Qed.
+
+(* the trailing comment items as text, after TrimSpace: those of the trimmed list *)
+Lemma dwe_rc_tb ce lv : TRM ce ->
+  dwe is_space_go (match ce with [] => [] | _ :: _ => rc ce lv end) =
+  dwe is_space_go (match tb ce with [] => [] | _ :: _ => rc (tb ce) lv end).
+Proof.
+  intro R. pose proof (ind_ws indent indent_blank lv) as Wi.
+  destruct ce as [|c cs]; [reflexivity|].
+  pose proof (dwe_rc0 (ind lv) Wi cs c R) as Q.
+  pose proof (dwe_rc0_all (ind lv) (tb (c :: cs)) Wi (TRM_tb _ R)) as Q2. rewrite tb_tb in Q2.
+  rewrite rc_cons. change (lc c ++ render_comments (ind lv) false cs) with (rc0 (ind lv) (c :: cs)).
+  rewrite dwe_app, Q.
+  destruct (tb (c :: cs)) as [|x r] eqn:T.
+  - cbn [rc0]. destruct c; reflexivity.
+  - pose proof (tb_hd _ _ _ _ T) as ->.
+    rewrite rc_cons. change (lc c ++ render_comments (ind lv) false r) with (rc0 (ind lv) (c :: r)).
+    rewrite dwe_app, Q2. destruct (rc0 (ind lv) (c :: r)); reflexivity.
+Qed.
+
+(* ---------- the writer does not look at the start of its buffer ---------- *)
+
+(* two buffer prefixes the fusion check cannot tell apart *)
+Definition Ieq (b1 b2 : str) : Prop := forall t op, spf op (b1 ++ t) = spf op (b2 ++ t).
+
+(* empty, or ending in a line break *)
+Definition eb (b : str) : Prop := b = [] \/ exists b', b = b' ++ [LF].
+
+Lemma spf_eb b t op : eb b ->
+  spf op (b ++ t) =
+  match op, rev t with
+  | c :: _, y :: r =>
+      if ((N.eqb c 43 || N.eqb c 45) && N.eqb y c)
+         || (str_eqb op [45; 45]%N && match r with x :: _ => N.eqb 33 y && N.eqb 60 x | [] => false end)
+      then [32%N] else []
+  | _, _ => []
+  end.
+Proof.
+  intro Hb. unfold spf, has_suffix. rewrite rev_app_distr. cbn [rev app].
+  destruct op as [|c op']; [reflexivity|].
+  destruct (rev t) as [|y [|x r]] eqn:E; cbn [app].
+  - destruct Hb as [-> | [b' ->]]; [reflexivity|]. rewrite rev_app_distr. cbn [rev app has_suffix_rev].
+    change (N.eqb 33 LF) with false. cbn [andb]. rewrite andb_false_r, orb_false_r.
+    destruct (N.eqb_spec LF c) as [<-|Ne]; [reflexivity|rewrite andb_false_r; reflexivity].
+  - cbn [has_suffix_rev]. destruct Hb as [-> | [b' ->]].
+    + cbn [rev has_suffix_rev]. rewrite andb_false_r. reflexivity.
+    + rewrite rev_app_distr. cbn [rev app has_suffix_rev]. change (N.eqb 60 LF) with false. cbn [andb]. rewrite andb_false_r. reflexivity.
+  - cbn [app has_suffix_rev]. replace (has_suffix_rev (r ++ rev b) []) with true by (destruct (r ++ rev b); reflexivity). rewrite andb_true_r. reflexivity.
+Qed.
+
+Lemma Ieq_eb b1 b2 : eb b1 -> eb b2 -> Ieq b1 b2.
+Proof. intros H1 H2 t op. rewrite (spf_eb b1 t op H1), (spf_eb b2 t op H2). reflexivity. Qed.
+
+Definition wst (b t : str) (pd : list N) (lv : Z) (mp : SourceMap.mapper) (pn : bool) : wstate :=
+  mkwstate (b ++ t) pd lv mp pn.
+
+Lemma sim_step b1 b2 : Ieq b1 b2 -> forall o t pd lv mp pn,
+  exists t' pd' lv' pn', forall b, (b = b1 \/ b = b2) ->
+    wstep (PrettyWr.pc indent) (wst b t pd lv mp pn) o = wst b t' pd' lv' mp pn'.
+Proof.
+  intros HI o t pd lv mp pn. destruct pn.
+  { exists t, pd, lv, true. intros b _. reflexivity. }
+  assert (P : forall b, wst b t pd lv mp false = ps (b ++ t) pd lv mp) by reflexivity.
+  destruct o.
+  - exists (t ++ fl pd lv ++ s), [], lv, false. intros b _. rewrite P, pt_string. unfold wst, ps. rewrite <- app_assoc. reflexivity.
+  - exists (t ++ fl pd lv ++ [c]), [], lv, false. intros b _. rewrite P, pt_rune. unfold wst, ps. rewrite <- app_assoc. reflexivity.
+  - exists (t ++ fl pd lv ++ [59%N]), [], lv, false. intros b _. rewrite P, pt_semi. unfold wst, ps. rewrite <- app_assoc. reflexivity.
+  - exists t, (add_pend pd 32), lv, false. intros b _. rewrite P, pt_space. reflexivity.
+  - exists t, [LF], lv, false. intros b _. rewrite P, pt_newline. reflexivity.
+  - exists t, (add_pend pd TAB), lv, false. intros b _. rewrite P, pt_indent. reflexivity.
+  - exists t, pd, (lv + 1), false. intros b _. rewrite P, pt_inc. reflexivity.
+  - exists t, pd, (if 0 <? lv then lv - 1 else lv), false. intros b _. unfold wst, wstep.
+    cbn [w_panic PrettyWr.pc w_pretty negb w_level]. destruct (0 <? lv); reflexivity.
+  - destruct cs as [|c0 cs'].
+    + exists t, pd, lv, false. intros b _. rewrite P, pt_comments_nil. reflexivity.
+    + exists (t ++ rc (c0 :: cs') lv), [LF; TAB], lv, false. intros b _. rewrite P, pt_comments by discriminate.
+      unfold wst, ps. rewrite <- app_assoc. reflexivity.
+  - exists (t ++ fl pd lv), [], lv, false. intros b _. rewrite P, pt_mapping. unfold wst, ps. rewrite <- app_assoc. reflexivity.
+  - exists (t ++ fl pd lv), [], lv, false. intros b _. rewrite P, pt_named. unfold wst, ps. rewrite <- app_assoc. reflexivity.
+  - exists ((t ++ fl pd lv) ++ spf op (b1 ++ t ++ fl pd lv)), [], lv, false. intros b Hb. rewrite P, pt_fusion.
+    unfold wst, ps. rewrite <- !app_assoc.
+    destruct Hb as [-> | ->]; [reflexivity|]. rewrite (HI (t ++ fl pd lv) op). reflexivity.
+  - exists t, pd, lv, true. intros b _. reflexivity.
+Qed.
+
+Lemma sim_run b1 b2 : Ieq b1 b2 -> forall ops t pd lv mp pn,
+  exists t' pd' lv' pn', forall b, (b = b1 \/ b = b2) ->
+    fold_left (wstep (PrettyWr.pc indent)) ops (wst b t pd lv mp pn) = wst b t' pd' lv' mp pn'.
+Proof.
+  intros HI. induction ops as [|o ops IH]; intros t pd lv mp pn.
+  - exists t, pd, lv, pn. intros b _. reflexivity.
+  - destruct (sim_step b1 b2 HI o t pd lv mp pn) as (t1 & pd1 & lv1 & pn1 & H1).
+    destruct (IH t1 pd1 lv1 mp pn1) as (t2 & pd2 & lv2 & pn2 & H2).
+    exists t2, pd2, lv2, pn2. intros b Hb. cbn [fold_left]. rewrite (H1 b Hb). apply (H2 b Hb).
+Qed.
+
 End TrivWriter.
 End TrivWr.
 Import TrivWr.
@@ -955,10 +1113,121 @@ Lemma tcm_G' pd lv cs : pend_ok pd -> NLF cs -> tcm (G pd lv cs) = match cs with
 Proof. intros Hp [Hc Hr]. exact (tcm_G indent indent_blank pd lv cs Hp Hc Hr). Qed.
 
 (* the first token of the re-lexed expression carries the trivia list [cm]; the boundary trivia inside *)
-Definition XE (e' e : expr) (t0 : token) (cm : list str) : Prop :=
-  t_comments t0 = cm /\ first_tok_expr e' = Some t0 /\ nb (bnd_expr e') = nb (bnd_expr e).
-Definition XS (s' s : stmt) (cm : list str) : Prop :=
-  trivia_of (first_tok_stmt s') = [cm] /\ nb (bnd_stmt s') = nb (bnd_stmt s).
+
+(* ---------- printing the re-lexed tree again ---------- *)
+
+(* a pending layout whose text is reproduced when the blank-line markers read back from it are
+   written as leading comments *)
+Definition ST (pd : list N) (lv : Z) : Prop := G pd lv (lfs pd) = fl pd lv.
+
+Lemma ST_nolf pd lv : lfs pd = [] -> ST pd lv.
+Proof. intro H. unfold ST. rewrite H. reflexivity. Qed.
+Lemma ST_nil lv : ST [] lv. Proof. apply ST_nolf. reflexivity. Qed.
+Lemma ST_sp lv : ST [32%N] lv. Proof. apply ST_nolf. reflexivity. Qed.
+Lemma ST_lftab lv : ST [LF; TAB] lv.
+Proof. unfold ST. rewrite fl_lftab. reflexivity. Qed.
+
+Definition GF (pd : list N) (lv : Z) (g : str) (lead : list str) : Prop :=
+  ST pd lv -> G pd lv (tcm g) = G pd lv lead.
+
+Lemma GF_G_sp pd lv cs sp : pend_ok pd -> NLF cs -> (sp = [] \/ sp = [32%N]) -> GF pd lv (G pd lv cs ++ sp) cs.
+Proof.
+  intros Hp Hc Hsp S. destruct (GL_G_sp pd lv cs sp Hp Hc Hsp) as [E _]. rewrite E.
+  destruct cs; [exact S|reflexivity].
+Qed.
+
+Lemma GF_G pd lv cs : pend_ok pd -> NLF cs -> GF pd lv (G pd lv cs) cs.
+Proof. intros Hp Hc. rewrite <- (app_nil_r (G pd lv cs)). apply GF_G_sp; [exact Hp|exact Hc|left; reflexivity]. Qed.
+
+(* operations that start by flushing the pending layout *)
+Definition FF (lv : Z) (rest : list wop) : Prop :=
+  forall B pd mp, prun (ps B pd lv mp) rest = prun (ps (B ++ fl pd lv) [] lv mp) rest.
+
+Lemma FF_mapping lv p r : FF lv (WMapping p :: r).
+Proof. intros B pd mp. rewrite !(PrettyWr.prun_cons indent), !pt_mapping, fl_nil, app_nil_r. reflexivity. Qed.
+Lemma FF_named lv x y n r : FF lv (WNamedMapping x y n :: r).
+Proof. intros B pd mp. rewrite !(PrettyWr.prun_cons indent), !pt_named, fl_nil, app_nil_r. reflexivity. Qed.
+Lemma FF_fusion lv op r : FF lv (WAvoidFusion op :: r).
+Proof. intros B pd mp. rewrite !(PrettyWr.prun_cons indent), !pt_fusion, fl_nil, !app_nil_r. reflexivity. Qed.
+Lemma FF_app lv r x : FF lv r -> FF lv (r ++ x).
+Proof. intros H B pd mp. rewrite !(PrettyWr.prun_app indent), H. reflexivity. Qed.
+
+Definition nop (o : wop) : Prop := o = WComments [].
+
+Lemma prun_nops pre : Forall nop pre -> forall B pd lv mp, prun (ps B pd lv mp) pre = ps B pd lv mp.
+Proof.
+  induction 1 as [|o pre Ho Hp IH]; intros B pd lv mp; [reflexivity|].
+  rewrite (PrettyWr.prun_cons indent). unfold nop in Ho. subst o. rewrite pt_comments_nil. apply IH.
+Qed.
+
+(* the operations of the re-lexed tree: leading comments [cm], then operations which, run behind the
+   gap [g0] of the source tree, write the same text *)
+Inductive WX (ops' : list wop) (cm : list str) (b : str) (lv : Z) (g0 g body : str) : Prop :=
+| WX_intro pre rest :
+    ops' = pre ++ WComments cm :: rest -> Forall nop pre -> FF lv rest ->
+    (forall mp2, prun (ps (b ++ g0) [] lv mp2) rest = ps (b ++ g ++ body) [] lv mp2) ->
+    WX ops' cm b lv g0 g body.
+
+Lemma WX_run ops' cm b lv g0 g body : WX ops' cm b lv g0 g body ->
+  forall pd2 mp2, G pd2 lv cm = g0 -> prun (ps b pd2 lv mp2) ops' = ps (b ++ g ++ body) [] lv mp2.
+Proof.
+  intros [pre rest E Hp Hf Hr] pd2 mp2 HG. subst ops'.
+  rewrite (PrettyWr.prun_app indent), (prun_nops pre Hp), (PrettyWr.prun_cons indent).
+  destruct cm as [|c cm'].
+  - rewrite pt_comments_nil, Hf. unfold PrettyWr.G in HG. rewrite HG. apply Hr.
+  - rewrite pt_comments by discriminate. rewrite Hf, fl_lftab, <- app_assoc.
+    unfold PrettyWr.G in HG. rewrite HG. apply Hr.
+Qed.
+
+Lemma WX_lead ops' cm b lv g0 g body rest : ops' = WComments cm :: rest -> FF lv rest ->
+  (forall mp2, prun (ps (b ++ g0) [] lv mp2) rest = ps (b ++ g ++ body) [] lv mp2) ->
+  WX ops' cm b lv g0 g body.
+Proof. intros E Hf Hr. apply (WX_intro _ _ _ _ _ _ _ [] rest); [exact E|constructor|exact Hf|exact Hr]. Qed.
+
+Lemma WX_ext opsL more cm b lv g0 g bodyL x : WX opsL cm b lv g0 g bodyL ->
+  (forall mp2, prun (ps (b ++ g ++ bodyL) [] lv mp2) more = ps (b ++ g ++ bodyL ++ x) [] lv mp2) ->
+  WX (opsL ++ more) cm b lv g0 g (bodyL ++ x).
+Proof.
+  intros [pre rest E Hp Hf Hr] Hm. apply (WX_intro _ _ _ _ _ _ _ pre (rest ++ more)).
+  - rewrite E, <- app_assoc. reflexivity.
+  - exact Hp.
+  - apply FF_app. exact Hf.
+  - intro mp2. rewrite (PrettyWr.prun_app indent), Hr. apply Hm.
+Qed.
+
+Lemma WX_nop ops' cm b lv g0 g body : WX ops' cm b lv g0 g body -> WX (WComments [] :: ops') cm b lv g0 g body.
+Proof.
+  intros [pre rest E Hp Hf Hr]. apply (WX_intro _ _ _ _ _ _ _ (WComments [] :: pre) rest).
+  - rewrite E. reflexivity.
+  - constructor; [reflexivity|exact Hp].
+  - exact Hf.
+  - exact Hr.
+Qed.
+
+(* entry form: the operations write the gap of the leading comments, then continue with [rest] *)
+Definition EF (q : list N -> list N) (ops' : list wop) (cm : list str) (b : str) (lv : Z) (g0 g body : str) (P : Prop) : Prop :=
+  exists rest,
+    (forall B pd2 mp2, prun (ps B pd2 lv mp2) ops' = prun (ps (B ++ G (q pd2) lv cm) [] lv mp2) rest) /\
+    (P -> forall mp2, prun (ps (b ++ g0) [] lv mp2) rest = ps (b ++ g ++ body) [] lv mp2).
+
+Lemma WX_entry ops' cm b lv g0 g body : WX ops' cm b lv g0 g body ->
+  exists rest,
+    (forall B pd2 mp2, prun (ps B pd2 lv mp2) ops' = prun (ps (B ++ G pd2 lv cm) [] lv mp2) rest) /\
+    (forall mp2, prun (ps (b ++ g0) [] lv mp2) rest = ps (b ++ g ++ body) [] lv mp2).
+Proof.
+  intros [pre rest E Hp Hf Hr]. exists rest. split; [|exact Hr]. intros B pd2 mp2. subst ops'.
+  rewrite (PrettyWr.prun_app indent), (prun_nops pre Hp), (PrettyWr.prun_cons indent).
+  destruct cm as [|c cm'].
+  - rewrite pt_comments_nil, Hf. reflexivity.
+  - rewrite pt_comments by discriminate. rewrite Hf, fl_lftab, <- app_assoc. reflexivity.
+Qed.
+
+Definition XE (b : str) (lv : Z) (g0 g body : str) (e' e : expr) (t0 : token) (cm : list str) : Prop :=
+  t_comments t0 = cm /\ first_tok_expr e' = Some t0 /\ nb (bnd_expr e') = nb (bnd_expr e) /\
+  WX (write_expr e') cm b lv g0 g body.
+Definition XS (b : str) (lv : Z) (g0 g body : str) (s' s : stmt) (cm : list str) : Prop :=
+  trivia_of (first_tok_stmt s') = [cm] /\ nb (bnd_stmt s') = nb (bnd_stmt s) /\
+  WX (write_stmt s') cm b lv g0 g body.
 Definition XSS (ss' ss : list stmt) (cm : list str) : Prop :=
   exists rest', bnd_stmts ss' = cm :: rest' /\ nb rest' = nb (tl (bnd_stmts ss)).
 
@@ -1038,25 +1307,25 @@ Qed.
 (* ================================================================== *)
 
 (* lexing the (trimmed) text of an expression behind any trivia *)
-Definition LxE (body : str) (e : expr) (fty : Z) : Prop :=
+Definition LxE (b : str) (lv : Z) (g0 g body : str) (e : expr) (fty : Z) : Prop :=
   forall K, kont K -> forall gs l, trv gs -> l_rest l = gs ++ rta body K ->
     exists e' ts l', lexes l ts l' /\ l_rest l' = K /\
       (forall R, m_expr e' (ts ++ R) = Some R) /\ shape_expr e' = shape_expr e /\
-      exists t0 ts0, ts = t0 :: ts0 /\ t_type t0 = fty /\ t_nl t0 = has_lf gs /\ XE e' e t0 (tcm gs).
+      exists t0 ts0, ts = t0 :: ts0 /\ t_type t0 = fty /\ t_nl t0 = has_lf gs /\ XE b lv g0 g body e' e t0 (tcm gs).
 
 Definition PJ (ops : list wop) (e : expr) (c : N) (fty : Z) (lead : list str) : Prop :=
   forall b pd lv mp, 0 <= lv -> pend_ok pd ->
   exists g body,
     prun (ps b pd lv mp) ops = ps (b ++ g ++ body) [] lv mp /\
-    wgap g /\ (g = [] -> nofuse b c) /\ ((~ In LF pd -> lead = [] -> has_lf g = false) /\ GL pd g lead) /\
-    hd 0%N body = c /\ LxE body e fty.
+    wgap g /\ (g = [] -> nofuse b c) /\ ((~ In LF pd -> lead = [] -> has_lf g = false) /\ GL pd g lead /\ GF pd lv g lead) /\
+    hd 0%N body = c /\ LxE b lv (G pd lv lead) g body e fty.
 
 (* the same behind a gap of the writer, followed by more text *)
-Lemma LxE_gap g body e fty c X K l : LxE body e fty -> wgap g -> hd 0%N body = c -> ost c ->
+Lemma LxE_gap {b lv g0 gE} g body e fty c X K l : LxE b lv g0 gE body e fty -> wgap g -> hd 0%N body = c -> ost c ->
   kont (rta X K) -> l_rest l = rta (g ++ body ++ X) K ->
   exists e' ts l', lexes l ts l' /\ l_rest l' = rta X K /\
     (forall R, m_expr e' (ts ++ R) = Some R) /\ shape_expr e' = shape_expr e /\
-    exists t0 ts0, ts = t0 :: ts0 /\ t_type t0 = fty /\ (has_lf g = false -> t_nl t0 = false) /\ XE e' e t0 (tcm g).
+    exists t0 ts0, ts = t0 :: ts0 /\ t_type t0 = fty /\ (has_lf g = false -> t_nl t0 = false) /\ XE b lv g0 gE body e' e t0 (tcm g).
 Proof.
   intros Lx Gg Hd Os HK Hl.
   destruct (gap_split_c g body X K c Gg Hd (ost_ws _ Os) (ost_nz _ Os)) as (g' & E & T' & L' & _ & _ & _ & C').
@@ -1067,6 +1336,7 @@ Proof.
   - rewrite <- C'. apply X0.
   - apply X0.
   - apply X0.
+  - rewrite <- C'. apply X0.
 Qed.
 
 (* own_line of the trivia list read back from a gap of the writer behind a line break *)
@@ -1098,17 +1368,23 @@ Lemma PJ_atom ops cs w ty lit e c (mk : token -> expr) :
   (forall t', t_type t' = ty -> t_lit t' = lit ->
      (forall R, m_expr (mk t') (t' :: R) = Some R) /\ shape_expr (mk t') = shape_expr e) ->
   (forall t', first_tok_expr (mk t') = Some t' /\ bnd_expr (mk t') = bnd_expr e) ->
+  (forall t', t_type t' = ty -> t_lit t' = lit ->
+     exists rest, write_expr (mk t') = WComments (t_comments t') :: rest /\ (forall lv, FF lv rest) /\
+       forall B lv mp, prun (ps B [] lv mp) rest = ps (B ++ w) [] lv mp) ->
   PJ ops e c ty cs.
 Proof.
-  intros W Hcs L Hc C1 C2 M MX b pd lv mp Hlv Hpd. exists (G pd lv cs), w. split; [apply W|].
+  intros W Hcs L Hc C1 C2 M MX HW b pd lv mp Hlv Hpd. exists (G pd lv cs), w. split; [apply W|].
   split; [apply G_gap; assumption|].
   split; [intros _; apply nofuse_other; assumption|].
-  split; [split; [intros H1 H2; apply G_nolf; assumption|apply GL_G; assumption]|]. split; [exact Hc|].
+  split; [split; [intros H1 H2; apply G_nolf; assumption|split; [apply GL_G; assumption|apply GF_G; assumption]]|]. split; [exact Hc|].
   intros K HK gs l Tg Hl.
   destruct (L K HK gs l Tg Hl) as (t & l' & Lx & Ty & Li & Nl & R & Cm).
   destruct (M t Ty Li) as [M1 M2]. destruct (MX t) as [X1 X2].
   exists (mk t), [t], l'. split; [exact Lx|]. split; [exact R|]. split; [exact M1|]. split; [exact M2|].
-  exists t, []. repeat split; try assumption. rewrite X2. reflexivity.
+  destruct (HW t Ty Li) as (rest & E & Hf & Hr).
+  exists t, []. split; [reflexivity|]. split; [exact Ty|]. split; [exact Nl|].
+  split; [exact Cm|]. split; [exact X1|]. split; [rewrite X2; reflexivity|].
+  rewrite <- Cm. apply (WX_lead _ _ _ _ _ _ _ rest E (Hf lv)). intro mp2. rewrite Hr, <- app_assoc. reflexivity.
 Qed.
 
 Definition PE (e : expr) (lead : list str) : Prop :=
@@ -1136,6 +1412,8 @@ Ltac psimp :=
                | rewrite prun_lead | rewrite prun_lead_named | rewrite prun_nil | rewrite prun_app
                | pstep ].
 
+Ltac pfin := cbn [app id_value id_tok]; rewrite ?app_nil_r, <- ?app_assoc; cbn [app]; try reflexivity.
+
 Lemma P_ident i cs : ident_lexical i = true -> t_comments (id_tok i) = cs -> NLF cs -> PE (EIdent i) cs.
 Proof.
   unfold ident_lexical. intros H Ecs Hcs. apply andb_true_iff in H as [H H3]. apply andb_true_iff in H as [H1 H2].
@@ -1158,6 +1436,7 @@ Proof.
     + unfold shape_expr. cbn [tmap_expr]. unfold tmap_ident. cbn [id_tok id_value].
       rewrite (norm_eq t' (id_tok i)) by congruence. reflexivity.
   - intro t'. split; reflexivity.
+  - intros t' Ty' Li'. eexists. split; [reflexivity|]. split; [intro; apply FF_named|]. intros B lv0 mp0. psimp. pfin.
 Qed.
 
 (* numbers do not end in a blank *)
@@ -1225,6 +1504,7 @@ Proof.
     + intro R. cbn [m_expr]. rewrite Ty, Li, H3. change (T_INT =? T_INT) with true. cbn [andb]. apply eat_tok_refl.
     + cbn [shape_expr tmap_expr]. f_equal. apply norm_eq; congruence.
   - intro t'. split; reflexivity.
+  - intros t' Ty' Li'. eexists. split; [reflexivity|]. split; [intro; apply FF_mapping|]. intros B lv0 mp0. psimp. rewrite Li'. pfin.
 Qed.
 
 Lemma P_float t cs : (t_type t =? T_FLOAT) && relex_word T_FLOAT (t_lit t) && go_float_ok (t_lit t) = true ->
@@ -1248,6 +1528,7 @@ Proof.
     + intro R. cbn [m_expr]. rewrite Ty, Li, H3. change (T_FLOAT =? T_FLOAT) with true. cbn [andb]. apply eat_tok_refl.
     + cbn [shape_expr tmap_expr]. f_equal. apply norm_eq; congruence.
   - intro t'. split; reflexivity.
+  - intros t' Ty' Li'. eexists. split; [reflexivity|]. split; [intro; apply FF_mapping|]. intros B lv0 mp0. psimp. rewrite Li'. pfin.
 Qed.
 
 Lemma P_bool t b cs : lexical (EBool t b) = true -> t_comments t = cs -> NLF cs -> PE (EBool t b) cs.
@@ -1276,6 +1557,7 @@ Proof.
       destruct Ty as [[-> ->]|[-> ->]]; cbn; apply eat_tok_refl.
     + cbn [shape_expr tmap_expr]. f_equal. apply norm_eq; congruence.
   - intro t'. split; reflexivity.
+  - intros t' Ty' Li'. eexists. split; [reflexivity|]. split; [intro; apply FF_mapping|]. intros B lv0 mp0. psimp. rewrite Li'. pfin.
 Qed.
 
 Definition kw_null : str := [110; 117; 108; 108]%N.
@@ -1297,6 +1579,7 @@ Proof.
     + intro R. cbn [m_expr]. rewrite Ty'. change (T_NULL =? T_NULL) with true. cbn iota. apply eat_tok_refl.
     + cbn [shape_expr tmap_expr]. f_equal. apply norm_eq; [congruence|]. rewrite Li. symmetry. exact H2.
   - intro t'. split; reflexivity.
+  - intros t' Ty' Li'. eexists. split; [reflexivity|]. split; [intro; apply FF_mapping|]. intros B lv0 mp0. psimp. pfin.
 Qed.
 
 Lemma P_string t v cs : lexical (EString t v) = true -> blank_eol_free v = true ->
@@ -1318,6 +1601,7 @@ Proof.
     + intro R. cbn [m_expr]. rewrite Ty', Li, str_eqb_refl. change (T_STRING =? T_STRING) with true. cbn [andb]. apply eat_tok_refl.
     + cbn [shape_expr tmap_expr]. f_equal. apply norm_eq; congruence.
   - intro t'. split; reflexivity.
+  - intros t' Ty' Li'. eexists. split; [reflexivity|]. split; [intro; apply FF_mapping|]. intros B lv0 mp0. psimp. pfin.
 Qed.
 
 Lemma P_raw t v cs : lexical (ERaw t v) = true -> blank_eol_free v = true ->
@@ -1339,6 +1623,7 @@ Proof.
     + intro R. cbn [m_expr]. rewrite Ty', Li, str_eqb_refl. change (T_RAW_STRING =? T_RAW_STRING) with true. cbn [andb]. apply eat_tok_refl.
     + cbn [shape_expr tmap_expr]. f_equal. apply norm_eq; congruence.
   - intro t'. split; reflexivity.
+  - intros t' Ty' Li'. eexists. split; [reflexivity|]. split; [intro; apply FF_mapping|]. intros B lv0 mp0. psimp. rewrite replace_all_rep. pfin.
 Qed.
 
 (* ================================================================== *)
@@ -1368,7 +1653,15 @@ Proof.
   end; discriminate.
 Qed.
 
-Lemma PJ_infix opsL gL cL tyL leadL mid cs s ty opsR gR cR tyR leadR t (mk : token -> expr -> expr -> expr) :
+Lemma prec_opt_shape a b : shape_expr a = shape_expr b -> prec_opt a = prec_opt b.
+Proof.
+  intro H. destruct a, b; try discriminate H; try reflexivity.
+  unfold shape_expr in H. cbn [tmap_expr] in H. injection H as H _ _ _. cbn [prec_opt].
+  rewrite H. reflexivity.
+Qed.
+
+Lemma PJ_infix opsL gL cL tyL leadL mid cs s ty opsR gR cR tyR leadR t (mk : token -> expr -> expr -> expr)
+  (midf : token -> list wop) :
   PJ opsL gL cL tyL leadL -> PJ opsR gR cR tyR leadR -> ost cL -> ost cR ->
   (forall b lv mp, prun (ps b [] lv mp) mid = ps (b ++ G [32%N] lv cs ++ s) [32%N] lv mp) -> NLF cs ->
   type_text ty = Some s -> t_type t = ty -> t_lit t = s ->
@@ -1378,13 +1671,16 @@ Lemma PJ_infix opsL gL cL tyL leadL mid cs s ty opsR gR cR tyR leadR t (mk : tok
   (forall t' eL eR, shape_expr (mk t' eL eR) = mk (norm_tok t') (shape_expr eL) (shape_expr eR)) ->
   (forall t' eL eR, first_tok_expr (mk t' eL eR) = first_tok_expr eL) ->
   (forall t' eL eR, bnd_expr (mk t' eL eR) = bnd_expr eL ++ bnd_expr eR) ->
+  (forall t' eL eR, t_type t' = ty -> shape_expr eL = shape_expr gL -> shape_expr eR = shape_expr gR ->
+     write_expr (mk t' eL eR) = write_expr eL ++ midf t' ++ write_expr eR) ->
+  (forall t' B lv mp, prun (ps B [] lv mp) (midf t') = ps (B ++ G [32%N] lv (t_comments t') ++ s) [32%N] lv mp) ->
   PJ (opsL ++ mid ++ opsR) (mk t gL gR) cL tyL leadL.
 Proof.
-  intros JL JR OsL OsR Wm Hcs T Ty Li M S F1 B1 b pd lv mp Hlv Hpd.
+  intros JL JR OsL OsR Wm Hcs T Ty Li M S F1 B1 HO HM b pd lv mp Hlv Hpd.
   destruct (JL b pd lv mp Hlv Hpd) as (g & body & W & Gg & Gn & Gl & Hd & Lx).
   set (gm := G [32%N] lv cs).
   assert (Ggm : wgap gm) by (apply G_gap; [exact indent_blank|exact pend_ok_sp|exact Hcs]).
-  destruct (JR ((b ++ g ++ body) ++ gm ++ s) [32%N] lv mp Hlv pend_ok_sp) as (g2 & body2 & W2 & Gg2 & Gn2 & _ & Hd2 & Lx2).
+  destruct (JR ((b ++ g ++ body) ++ gm ++ s) [32%N] lv mp Hlv pend_ok_sp) as (g2 & body2 & W2 & Gg2 & Gn2 & (_ & _ & Gf2) & Hd2 & Lx2).
   exists g, (body ++ gm ++ s ++ g2 ++ body2). split.
   { rewrite !prun_app, W, Wm. fold gm. rewrite W2. f_equal. rewrite <- !app_assoc. reflexivity. }
   split; [exact Gg|]. split; [exact Gn|]. split; [exact Gl|].
@@ -1397,7 +1693,7 @@ Proof.
   assert (PB : pbnd s (hd 0%N (rta (g2 ++ body2) K))).
   { rewrite <- (app_nil_r body2). apply (pbnd_gap ((b ++ g ++ body) ++ gm) s g2 body2 [] K cR Gg2 Hd2 OsR).
     intro E. rewrite <- app_assoc. exact (Gn2 E). }
-  destruct (P_punct ty s gm (g2 ++ body2) K l1 T PB Ggm R1) as (t' & l2 & L2 & Ty' & Li' & _ & R2).
+  destruct (P_punct_c ty s gm (g2 ++ body2) K l1 T PB Ggm R1) as (t' & l2 & L2 & Ty' & Li' & _ & R2 & Cm').
   rewrite <- (app_nil_r body2) in R2.
   destruct (LxE_gap g2 body2 gR tyR cR [] K l2 Lx2 Gg2 Hd2 OsR HK R2)
     as (eR & tsR & l3 & L3 & R3 & MR & SR & tR0 & tsR0 & _ & _ & _ & XR).
@@ -1410,6 +1706,11 @@ Proof.
     + apply X0.
     + rewrite F1. apply X0.
     + rewrite !B1, !nb_app. f_equal; [apply X0|apply XR].
+    + rewrite (HO t' eL eR Ty' SL SR). apply WX_ext; [apply X0|]. intro mp2.
+      rewrite (PrettyWr.prun_app indent), HM, Cm'. unfold gm.
+      rewrite (GF_G [32%N] lv cs pend_ok_sp Hcs (ST_sp lv)). fold gm.
+      destruct XR as (_ & _ & _ & WR). rewrite (WX_run _ _ _ _ _ _ _ WR [32%N] mp2 (Gf2 (ST_sp lv))).
+      f_equal. rewrite <- !app_assoc. reflexivity.
 Qed.
 
 Lemma P_binary t l op r lv pl pr ll lr :
@@ -1427,7 +1728,8 @@ Proof.
       by (cbn [app]; rewrite !app_nil_r; reflexivity)
   end.
   apply (PJ_infix _ _ _ _ _ _ (t_comments t) (t_lit t) (t_type t) _ _ cr (first_type r) lr t
-           (fun t' a b => EBinary t' a (t_lit t) b)).
+           (fun t' a b => EBinary t' a (t_lit t) b)
+           (fun t' => [WSpace; WComments (t_comments t'); WMapping (t_start t'); WString (t_lit t); WSpace])).
   - exact Jl.
   - exact Jr.
   - exact Ol.
@@ -1442,6 +1744,10 @@ Proof.
   - reflexivity.
   - reflexivity.
   - reflexivity.
+  - intros t' eL eR Ty' SL' SR'. cbn [write_expr prec_opt].
+    rewrite (prec_opt_shape _ _ SL'), (prec_opt_shape _ _ SR'), Pl, Pr, Ty', (binop_prec _ _ Hb), Cl, Cr.
+    cbn [app]. rewrite !app_nil_r. reflexivity.
+  - intros t' B lv0 mp0. psimp. rewrite <- ?app_assoc. reflexivity.
 Qed.
 
 Lemma P_assign t l v ll lv0 : t_type t = T_ASSIGN -> t_lit t = [61%N] -> NLF (t_comments t) ->
@@ -1456,7 +1762,8 @@ Proof.
                       write_expr v)
       by (rewrite app_nil_r; reflexivity)
   end.
-  apply (PJ_infix _ _ _ _ _ _ (t_comments t) [61%N] T_ASSIGN _ _ cv (first_type v) lv0 t (fun t' a b => EAssign t' a b)).
+  apply (PJ_infix _ _ _ _ _ _ (t_comments t) [61%N] T_ASSIGN _ _ cv (first_type v) lv0 t (fun t' a b => EAssign t' a b)
+           (fun t' => [WSpace; WComments (t_comments t'); WMapping (t_start t'); WRune 61%N; WSpace])).
   - exact Jl.
   - exact Jv.
   - exact Ol.
@@ -1472,6 +1779,8 @@ Proof.
   - reflexivity.
   - reflexivity.
   - reflexivity.
+  - intros t' eL eR Ty' SL' SR'. cbn [write_expr]. rewrite app_nil_r. reflexivity.
+  - intros t' B lv2 mp0. psimp. rewrite <- ?app_assoc. reflexivity.
 Qed.
 
 Lemma P_compound t l op v ty ll lv0 :
@@ -1489,7 +1798,8 @@ Proof.
                       write_expr v)
       by (rewrite app_nil_r; reflexivity)
   end.
-  apply (PJ_infix _ _ _ _ _ _ (t_comments t) (op ++ [61%N]) ty _ _ cv (first_type v) lv0 t (fun t' a b => ECompound t' a op b)).
+  apply (PJ_infix _ _ _ _ _ _ (t_comments t) (op ++ [61%N]) ty _ _ cv (first_type v) lv0 t (fun t' a b => ECompound t' a op b)
+           (fun t' => [WSpace; WComments (t_comments t'); WMapping (t_start t'); WString op; WRune 61%N; WSpace])).
   - exact Jl.
   - exact Jv.
   - exact Ol.
@@ -1504,6 +1814,8 @@ Proof.
   - reflexivity.
   - reflexivity.
   - reflexivity.
+  - intros t' eL eR Ty' SL' SR'. cbn [write_expr]. rewrite app_nil_r. reflexivity.
+  - intros t' B lv2 mp0. psimp. rewrite <- ?app_assoc. reflexivity.
 Qed.
 
 Lemma kont_gap_char g c X K : wgap g -> isWhitespace c = false -> c <> 0%N ->
@@ -1516,6 +1828,20 @@ Proof.
   - destruct (E1 ltac:(discriminate)) as (w & r & -> & Hw). apply kont_ws. exact Hw.
 Qed.
 
+Ltac setbuf B :=
+  match goal with |- context [PrettyWr.prun _ (ps ?x _ _ _) _] =>
+    replace x with B by (cbn [app]; rewrite ?app_nil_r, <- ?app_assoc; cbn [app]; rewrite <- ?app_assoc; reflexivity) end.
+Ltac wx_sub X pdv HG :=
+  let WR := fresh "WR" in destruct X as (_ & _ & _ & WR);
+  rewrite (WX_run _ _ _ _ _ _ _ WR pdv _ HG).
+Ltac pfeq := f_equal; cbn [app]; rewrite ?app_nil_r, <- ?app_assoc; cbn [app]; rewrite <- ?app_assoc; reflexivity.
+
+Lemma tcm_sp g : tcm (32%N :: g) = tcm g.
+Proof. apply (tcm_ws 32 g eq_refl). Qed.
+
+Lemma Gc_tcm lv cs : NLF cs -> Gc lv (tcm (Gc lv cs)) = Gc lv cs.
+Proof. intro H. rewrite (tcm_Gc' lv cs H). reflexivity. Qed.
+
 Lemma P_group lp e rp le : punct lp T_LPAREN = true -> punct rp T_RPAREN = true ->
   NLF (t_comments lp) -> NLF (t_comments rp) -> PE e le -> PE (EGroup lp e rp) (t_comments lp).
 Proof.
@@ -1527,7 +1853,7 @@ Proof.
   rewrite Ty1.
   intros b pd lv mp Hlv Hpd.
   destruct (Je ((b ++ G pd lv (t_comments lp)) ++ [40%N]) [] (lv + 1) mp ltac:(lia) pend_ok_nil)
-    as (g2 & body2 & W2 & Gg2 & Gn2 & _ & Hd2 & Lx2).
+    as (g2 & body2 & W2 & Gg2 & Gn2 & (_ & _ & Gf2) & Hd2 & Lx2).
   set (gc := Gc lv (t_comments rp)).
   assert (Ggc : wgap gc) by (apply Gc_gap; [exact indent_blank|exact Hc2]).
   exists (G pd lv (t_comments lp)), (40%N :: g2 ++ body2 ++ gc ++ [41%N]). split.
@@ -1535,7 +1861,7 @@ Proof.
     f_equal. rewrite <- !app_assoc. reflexivity. }
   split; [apply G_gap; assumption|].
   split; [intros _; apply nofuse_other; discriminate|].
-  split; [split; [intros H1 H2; apply G_nolf; assumption|apply GL_G; assumption]|]. split; [reflexivity|].
+  split; [split; [intros H1 H2; apply G_nolf; assumption|split; [apply GL_G; assumption|apply GF_G; assumption]]|]. split; [reflexivity|].
   intros K HK gs l Tg Hl.
   change (40%N :: g2 ++ body2 ++ gc ++ [41%N]) with ([40%N] ++ g2 ++ body2 ++ gc ++ [41%N]) in Hl.
   destruct (P_punct0_c T_LPAREN [40%N] gs _ K l type_text_lparen ltac:(pfree) Tg Hl)
@@ -1545,8 +1871,8 @@ Proof.
   destruct (LxE_gap g2 body2 e _ c (gc ++ [41%N]) K l1 Lx2 Gg2 Hd2 Oe KK R1)
     as (e0 & ts0 & l2 & L2 & R2 & M0 & S0 & tq & tsq & _ & _ & _ & X0).
   rewrite <- (app_nil_r [41%N]) in R2.
-  destruct (P_punct T_RPAREN [41%N] gc [] K l2 type_text_rparen ltac:(pfree) Ggc R2)
-    as (t2 & l3 & L3 & T2 & I2 & _ & R3).
+  destruct (P_punct_c T_RPAREN [41%N] gc [] K l2 type_text_rparen ltac:(pfree) Ggc R2)
+    as (t2 & l3 & L3 & T2 & I2 & _ & R3 & Cm2).
   exists (EGroup t1 e0 t2), ([t1] ++ ts0 ++ [t2]), l3.
   split; [eapply lexes_app; [exact L1|eapply lexes_app; eassumption]|]. split; [exact R3|].
   split; [|split].
@@ -1555,7 +1881,12 @@ Proof.
     rewrite eat_tok_refl, <- app_assoc, M0. cbn [app]. apply eat_tok_refl.
   - cbn [shape_expr tmap_expr]. fold (shape_expr e0). fold (shape_expr e). rewrite S0.
     rewrite (norm_eq t1 lp), (norm_eq t2 rp) by congruence. reflexivity.
-  - exists t1, (ts0 ++ [t2]). repeat split; try assumption. rewrite !bnd_group. apply X0.
+  - exists t1, (ts0 ++ [t2]). repeat split; try assumption; [rewrite !bnd_group; apply X0|].
+    rewrite <- C1. eapply WX_lead; [reflexivity|apply FF_mapping|]. intro mp2.
+    rewrite !(PrettyWr.prun_cons indent), pt_mapping, fl_nil, app_nil_r, pt_rune, fl_nil, pt_inc. cbn [app].
+    rewrite (PrettyWr.prun_app indent).
+    wx_sub X0 (@nil N) (Gf2 (ST_nil (lv + 1))).
+    rewrite prun_close by exact Hlv. rewrite prun_nil, Cm2. unfold gc. rewrite (Gc_tcm lv _ Hc2). pfeq.
 Qed.
 
 Lemma spf_gap op b : wgap (spf op b).
@@ -1587,7 +1918,7 @@ Proof.
   set (g0 := G pd lv (t_comments t)).
   assert (Gg0 : wgap g0) by (apply G_gap; assumption).
   set (g := g0 ++ spf (t_lit t) (b ++ g0)).
-  destruct (Jr ((b ++ g) ++ t_lit t) [] lv mp Hlv pend_ok_nil) as (g2 & body2 & W2 & Gg2 & Gn2 & _ & Hd2 & Lx2).
+  destruct (Jr ((b ++ g) ++ t_lit t) [] lv mp Hlv pend_ok_nil) as (g2 & body2 & W2 & Gg2 & Gn2 & (_ & _ & Gf2) & Hd2 & Lx2).
   exists g, (t_lit t ++ g2 ++ body2). split.
   { rewrite prun_fusion. fold g0. psimp. cbn [app]. rewrite app_nil_r.
     replace ((b ++ g0) ++ spf (t_lit t) (b ++ g0)) with (b ++ g) by (unfold g; rewrite app_assoc; reflexivity).
@@ -1600,8 +1931,9 @@ Proof.
   split.
   { split.
     - intros H1 H2. unfold g. rewrite has_lf_app, spf_nolf, orb_false_r. apply G_nolf; assumption.
-    - unfold g. apply GL_G_sp; [assumption|assumption|].
-      destruct (spf_cases (t_lit t) (b ++ g0)) as [->|[-> _]]; [right|left]; reflexivity. }
+    - assert (Hsp : spf (t_lit t) (b ++ g0) = [] \/ spf (t_lit t) (b ++ g0) = [32%N]).
+      { destruct (spf_cases (t_lit t) (b ++ g0)) as [->|[-> _]]; [right|left]; reflexivity. }
+      unfold g. split; [apply GL_G_sp; assumption|apply GF_G_sp; assumption]. }
   split; [apply hd_app_ne; exact (type_text_nonempty _ _ TT)|].
   intros K HK gs l Tg Hl.
   assert (PB : pbnd (t_lit t) (hd 0%N (rta (g2 ++ body2) K))).
@@ -1614,7 +1946,13 @@ Proof.
   - intro R. cbn [m_expr app]. rewrite Ty1, Tys, Li1, str_eqb_refl. cbn [negb orb].
     rewrite eat_tok_refl. apply MR.
   - unfold shape_expr in *. cbn [tmap_expr]. rewrite SR. f_equal. apply norm_eq; congruence.
-  - exists t', tsR. repeat split; try assumption. rewrite !bnd_unary. apply XR.
+  - exists t', tsR. repeat split; try assumption; [rewrite !bnd_unary; apply XR|].
+    rewrite <- C1. cbn [write_expr]. rewrite (prec_opt_shape _ _ SR), Pr, Cr, !app_nil_r.
+    eapply WX_lead; [reflexivity|apply FF_fusion|]. intro mp2.
+    rewrite !(PrettyWr.prun_cons indent), pt_fusion, fl_nil, !app_nil_r, pt_mapping, fl_nil, app_nil_r, pt_string, fl_nil.
+    cbn [app].
+    replace (((b ++ g0) ++ spf (t_lit t) (b ++ g0)) ++ t_lit t) with ((b ++ g) ++ t_lit t) by (unfold g; rewrite !app_assoc; reflexivity).
+    wx_sub XR (@nil N) (Gf2 (ST_nil lv)). pfeq.
 Qed.
 
 Lemma P_postfix t l op pl ll :
@@ -1644,28 +1982,34 @@ Proof.
     destruct Hs as [-> | ->]; exact I. }
   assert (R1' : l_rest l1 = rta ([] ++ t_lit t ++ []) K).
   { cbn [app]. rewrite app_nil_r, (rta_tsafe _ K (type_text_tsafe _ _ TT)). exact R1. }
-  destruct (P_punct (t_type t) (t_lit t) [] [] K l1 TT PB wgap_nil R1') as (t' & l2 & L2 & Ty2 & Li2 & Nl2 & R2).
+  destruct (P_punct_c (t_type t) (t_lit t) [] [] K l1 TT PB wgap_nil R1') as (t' & l2 & L2 & Ty2 & Li2 & Nl2 & R2 & Cm').
   exists (EPostfix t' eL (t_lit t)), (tsL ++ [t']), l2.
   split; [eapply lexes_app; eassumption|]. split; [exact R2|]. split; [|split].
   - intro R. cbn [m_expr]. rewrite Ty2, Tys, Li2, str_eqb_refl, (Nl2 eq_refl). cbn [negb orb].
     rewrite <- app_assoc, ML. cbn [app]. apply eat_tok_refl.
   - unfold shape_expr in *. cbn [tmap_expr]. rewrite SL. f_equal. apply norm_eq; congruence.
-  - exists t0, (ts0 ++ [t']). subst tsL. repeat split; try assumption; [apply X0|apply X0|rewrite !bnd_postfix; apply X0].
+  - exists t0, (ts0 ++ [t']). subst tsL. repeat split; try assumption; [apply X0|apply X0|rewrite !bnd_postfix; apply X0|].
+    cbn [write_expr]. rewrite Cm', (prec_opt_shape _ _ SL), Pl, Cl, !app_nil_r. change (tcm []) with (@nil str).
+    apply WX_nop. apply WX_ext; [apply X0|]. intro mp2.
+    rewrite !(PrettyWr.prun_cons indent), pt_mapping, fl_nil, app_nil_r, pt_string, fl_nil, prun_nil. pfeq.
 Qed.
 
 (* ---------- comma-separated expressions ---------- *)
 
 Definition PEx (e : expr) : Prop := exists le, PE e le.
 
-Definition LxL (body : str) (es : list expr) : Prop :=
+Definition sepx (es : list expr) : list wop := sep_map [WRune 44%N; WSpace] (fun a => write_expr a ++ []) es.
+
+Definition LxL (b : str) (pd : list N) (lv : Z) (body : str) (es : list expr) : Prop :=
   forall K, kont K -> forall l, l_rest l = rta body K ->
     exists es' ts l', lexes l ts l' /\ l_rest l' = K /\
       (forall R, m_exprs m_expr es' (ts ++ R) = Some R) /\ map shape_expr es' = map shape_expr es /\
-      nb (bnd_exprs es') = nb (bnd_exprs es).
+      nb (bnd_exprs es') = nb (bnd_exprs es) /\
+      (ST pd lv -> forall mp2, prun (ps b pd lv mp2) (sepx es') = ps (b ++ body) (match es with [] => pd | _ => [] end) lv mp2).
 
 Definition PL (ops : list wop) (es : list expr) : Prop :=
   forall b pd lv mp, 0 <= lv -> pend_ok pd -> exists body,
-    prun (ps b pd lv mp) ops = ps (b ++ body) (match es with [] => pd | _ => [] end) lv mp /\ LxL body es.
+    prun (ps b pd lv mp) ops = ps (b ++ body) (match es with [] => pd | _ => [] end) lv mp /\ LxL b pd lv body es.
 
 Lemma kont_comma X K : kont (rta (44%N :: X) K).
 Proof. rewrite rta_cons_nb by discriminate. apply kont_cons; [reflexivity|discriminate]. Qed.
@@ -1675,15 +2019,18 @@ Lemma PL_sep es : Forall PEx es ->
 Proof.
   induction 1 as [|x es (lx0 & cx & Ox & Jx) Hes IH]; intros b pd lv mp Hlv Hpd.
   - exists []. split; [rewrite app_nil_r; reflexivity|].
-    intros K HK l Hl. exists [], [], l. repeat split; try constructor. exact Hl.
-  - destruct (Jx b pd lv mp Hlv Hpd) as (g & body & W & Gg & _ & _ & Hd & Lx).
+    intros K HK l Hl. exists [], [], l. repeat split; try constructor; [exact Hl|].
+    intros _ mp2. unfold sepx. cbn [sep_map]. rewrite prun_nil, app_nil_r. reflexivity.
+  - destruct (Jx b pd lv mp Hlv Hpd) as (g & body & W & Gg & _ & (_ & _ & Gfx) & Hd & Lx).
     destruct es as [|y es'].
     + exists (g ++ body). split.
       { rewrite sep_map_one. cbv beta. rewrite app_nil_r. exact W. }
       intros K HK l Hl. rewrite <- (app_nil_r body), app_assoc in Hl. rewrite <- app_assoc in Hl.
       destruct (LxE_gap g body x _ cx [] K l Lx Gg Hd Ox HK Hl) as (e' & ts & l' & L & R & M & S & tq & tsq & _ & _ & _ & Xq).
-      exists [e'], ts, l'. repeat split; try assumption; [cbn [map]; rewrite S; reflexivity|].
-      rewrite !bnd_exprs_cons. cbn [bnd_exprs flat_map]. rewrite !app_nil_r. apply Xq.
+      exists [e'], ts, l'. repeat split; try assumption; [cbn [map]; rewrite S; reflexivity| |].
+      * rewrite !bnd_exprs_cons. cbn [bnd_exprs flat_map]. rewrite !app_nil_r. apply Xq.
+      * intros St mp2. unfold sepx. rewrite sep_map_one. cbv beta. rewrite app_nil_r.
+        wx_sub Xq pd (Gfx St). reflexivity.
     + destruct (IH ((b ++ g ++ body) ++ [44%N]) [32%N] lv mp Hlv pend_ok_sp) as (body2 & W2 & Lx2).
       exists ((g ++ body) ++ 44%N :: body2). split.
       { rewrite sep_map_cons2. cbv beta. rewrite (app_nil_r (write_expr x)), !prun_app, W. psimp. cbn [app].
@@ -1692,15 +2039,20 @@ Proof.
       destruct (LxE_gap g body x _ cx (44%N :: body2) K l Lx Gg Hd Ox (kont_comma _ _) Hl)
         as (e' & ts & l1 & L1 & R1 & M1 & S1 & tq & tsq & _ & _ & _ & Xq).
       destruct (P_comma [] body2 K l1 wgap_nil R1) as (tc & l2 & L2 & Tc & R2).
-      destruct (Lx2 K HK l2 R2) as (es2 & ts2 & l3 & L3 & R3 & M3 & S3 & X3).
+      destruct (Lx2 K HK l2 R2) as (es2 & ts2 & l3 & L3 & R3 & M3 & S3 & X3 & W3).
       exists (e' :: es2), (ts ++ [tc] ++ ts2), l3.
       split; [eapply lexes_app; [exact L1|eapply lexes_app; eassumption]|]. split; [exact R3|].
-      split; [|split].
+      split; [|split; [|split]].
       * intro R. destruct es2 as [|e2 es2']; [discriminate S3|].
         cbn [m_exprs]. rewrite <- !app_assoc, M1. cbn [app eat]. rewrite Tc.
         change (T_COMMA =? T_COMMA) with true. cbn iota. apply M3.
       * cbn [map]. rewrite S1. f_equal. exact S3.
       * rewrite (bnd_exprs_cons e'), (bnd_exprs_cons x), !nb_app. f_equal; [apply Xq|exact X3].
+      * intros St mp2. destruct es2 as [|e2 es2']; [discriminate S3|].
+        unfold sepx. rewrite sep_map_cons2. cbv beta. rewrite (app_nil_r (write_expr e')), !(PrettyWr.prun_app indent).
+        wx_sub Xq pd (Gfx St). psimp. cbn [app].
+        setbuf ((b ++ g ++ body) ++ [44%N]).
+        fold (sepx (e2 :: es2')). rewrite (W3 (ST_sp lv)). pfeq.
 Qed.
 
 Lemma kont_rparen' K : kont (rta [41%N] K).
@@ -1732,10 +2084,10 @@ Proof.
   { apply kont_gap_char; [exact Ggp|reflexivity|discriminate|reflexivity|discriminate]. }
   destruct (Lx _ KK gs l Tg Hl) as (eF & tsF & l1 & L1 & R1 & MF & SF & t0 & ts0 & E0 & Ty0 & Nl0 & X0).
   change (gp ++ 40%N :: body2 ++ [41%N]) with (gp ++ [40%N] ++ body2 ++ [41%N]) in R1.
-  destruct (P_punct T_LPAREN [40%N] gp _ K l1 type_text_lparen ltac:(pfree) Ggp R1)
-    as (t1 & l2 & L2 & Ty1 & Li1 & _ & R2).
+  destruct (P_punct_c T_LPAREN [40%N] gp _ K l1 type_text_lparen ltac:(pfree) Ggp R1)
+    as (t1 & l2 & L2 & Ty1 & Li1 & _ & R2 & Cm1).
   rewrite rta_app in R2.
-  destruct (Lx2 _ (kont_rparen' K) l2 R2) as (es' & tsA & l3 & L3 & R3 & MA & SA & XA).
+  destruct (Lx2 _ (kont_rparen' K) l2 R2) as (es' & tsA & l3 & L3 & R3 & MA & SA & XA & WA).
   assert (R3' : l_rest l3 = rta ([] ++ [41%N] ++ []) K) by exact R3.
   destruct (P_punct T_RPAREN [41%N] [] [] K l3 type_text_rparen ltac:(pfree) wgap_nil R3')
     as (t2 & l4 & L4 & Ty2 & _ & _ & R4).
@@ -1745,8 +2097,14 @@ Proof.
   - intro R. cbn [m_expr]. rewrite Ty1. change (T_LPAREN =? T_LPAREN) with true. cbn [negb].
     rewrite <- !app_assoc, MF. cbn [app]. rewrite eat_tok_refl, MA. cbn [app eat]. rewrite Ty2. reflexivity.
   - unfold shape_expr. cbn [tmap_expr]. change (tmap_expr norm_tok) with shape_expr. rewrite SF, SA. f_equal. apply norm_eq; congruence.
-  - exists t0, (ts0 ++ [t1] ++ tsA ++ [t2]). subst tsF. repeat split; try assumption; [apply X0|apply X0|].
-    rewrite !bnd_call, !nb_app. f_equal; [apply X0|exact XA].
+  - exists t0, (ts0 ++ [t1] ++ tsA ++ [t2]). subst tsF. repeat split; try assumption; [apply X0|apply X0| |].
+    { rewrite !bnd_call, !nb_app. f_equal; [apply X0|exact XA]. }
+    cbn [write_expr]. apply WX_ext; [apply X0|]. intro mp2.
+    rewrite prun_lead, Cm1. unfold gp. rewrite (GF_G [] lv _ pend_ok_nil Hcs (ST_nil lv)). fold gp.
+    rewrite !(PrettyWr.prun_cons indent), pt_rune, fl_nil, pt_inc. cbn [app]. rewrite (PrettyWr.prun_app indent).
+    fold (sepx es'). rewrite (WA (ST_nil (lv + 1))).
+    assert (E : (match args with [] => @nil N | _ :: _ => [] end) = []) by (destruct args; reflexivity).
+    rewrite E. rewrite prun_cons_ps, (pt_dec indent) by exact Hlv. rewrite prun_cons_ps, pt_rune, fl_nil, prun_nil. pfeq.
 Qed.
 
 Lemma P_member_computed t o p lo lp0 : t_type t = T_LBRACKET -> t_lit t = [91%N] -> NLF (t_comments t) ->
@@ -1759,7 +2117,7 @@ Proof.
   destruct (Jo b pd lv mp Hlv Hpd) as (g & body & W & Gg & Gn & Gl & Hd & Lx).
   set (gp := G [] lv (t_comments t)).
   assert (Ggp : wgap gp) by (apply G_gap; [exact indent_blank|exact pend_ok_nil|exact Hcs]).
-  destruct (Jp (((b ++ g ++ body) ++ gp) ++ [91%N]) [] lv mp Hlv pend_ok_nil) as (g2 & body2 & W2 & Gg2 & _ & _ & Hd2 & Lx2).
+  destruct (Jp (((b ++ g ++ body) ++ gp) ++ [91%N]) [] lv mp Hlv pend_ok_nil) as (g2 & body2 & W2 & Gg2 & _ & (_ & _ & Gf2) & Hd2 & Lx2).
   exists g, (body ++ gp ++ 91%N :: g2 ++ body2 ++ [93%N]). split.
   { rewrite prun_app, W. psimp. fold gp. cbn [app]. rewrite W2. psimp. cbn [app].
     f_equal. rewrite <- !app_assoc. reflexivity. }
@@ -1770,8 +2128,8 @@ Proof.
   { apply kont_gap_char; [exact Ggp|reflexivity|discriminate|reflexivity|discriminate]. }
   destruct (Lx _ KK gs l Tg Hl) as (eO & tsO & l1 & L1 & R1 & MO & SO & t0 & ts0 & E0 & Ty0 & Nl0 & X0).
   change (gp ++ 91%N :: g2 ++ body2 ++ [93%N]) with (gp ++ [91%N] ++ g2 ++ body2 ++ [93%N]) in R1.
-  destruct (P_punct T_LBRACKET [91%N] gp _ K l1 type_text_lbracket ltac:(pfree) Ggp R1)
-    as (t1 & l2 & L2 & Ty1 & Li1 & _ & R2).
+  destruct (P_punct_c T_LBRACKET [91%N] gp _ K l1 type_text_lbracket ltac:(pfree) Ggp R1)
+    as (t1 & l2 & L2 & Ty1 & Li1 & _ & R2 & Cm1).
   destruct (LxE_gap g2 body2 p _ cp [93%N] K l2 Lx2 Gg2 Hd2 Op (kont_rbracket' K) R2)
     as (eP & tsP & l3 & L3 & R3 & MP & SP & tq & tsq & _ & _ & _ & XP).
   assert (R3' : l_rest l3 = rta ([] ++ [93%N] ++ []) K) by exact R3.
@@ -1783,8 +2141,13 @@ Proof.
   - intro R. cbn [m_expr]. rewrite <- !app_assoc, MO. rewrite Ty1. change (T_LBRACKET =? T_LBRACKET) with true. cbn [negb].
     cbn [app]. rewrite eat_tok_refl, MP. cbn [app eat]. rewrite Ty2. reflexivity.
   - unfold shape_expr. cbn [tmap_expr]. change (tmap_expr norm_tok) with shape_expr. rewrite SO, SP. f_equal. apply norm_eq; congruence.
-  - exists t0, (ts0 ++ [t1] ++ tsP ++ [t2]). subst tsO. repeat split; try assumption; [apply X0|apply X0|].
-    rewrite !bnd_member, !nb_app. f_equal; [apply X0|apply XP].
+  - exists t0, (ts0 ++ [t1] ++ tsP ++ [t2]). subst tsO. repeat split; try assumption; [apply X0|apply X0| |].
+    { rewrite !bnd_member, !nb_app. f_equal; [apply X0|apply XP]. }
+    cbn [write_expr]. rewrite !app_nil_r. apply WX_ext; [apply X0|]. intro mp2.
+    rewrite prun_lead, Cm1. unfold gp. rewrite (GF_G [] lv _ pend_ok_nil Hcs (ST_nil lv)). fold gp.
+    rewrite !(PrettyWr.prun_cons indent), pt_rune, fl_nil. cbn [app]. rewrite (PrettyWr.prun_app indent).
+    wx_sub XP (@nil N) (Gf2 (ST_nil lv)).
+    rewrite prun_cons_ps, pt_rune, fl_nil, prun_nil. pfeq.
 Qed.
 
 
@@ -1829,12 +2192,12 @@ Proof.
   destruct (Lx _ (kont_dot gp gi (id_value i) K Ggp Ggi HL) gs l Tg Hl)
     as (eO & tsO & l1 & L1 & R1 & MO & SO & t0 & ts0 & E0 & Ty0 & Nl0 & X0).
   change (gp ++ 46%N :: gi ++ id_value i) with (gp ++ [46%N] ++ gi ++ id_value i) in R1.
-  destruct (P_punct T_DOT [46%N] gp _ K l1 type_text_dot ltac:(pfree) Ggp R1)
-    as (t1 & l2 & L2 & Ty1 & Li1 & _ & R2).
+  destruct (P_punct_c T_DOT [46%N] gp _ K l1 type_text_dot ltac:(pfree) Ggp R1)
+    as (t1 & l2 & L2 & Ty1 & Li1 & _ & R2 & Cm1).
   destruct HK as [HK1 HK2].
   rewrite <- (app_nil_r (id_value i)) in R2.
-  destruct (P_word T_IDENT (id_value i) gi [] K l2 H3 eq_refl ltac:(discriminate) ltac:(discriminate) HK1 Ggi R2)
-    as (t2 & l3 & L3 & Ty2 & Li2 & _ & R3).
+  destruct (P_word_c T_IDENT (id_value i) gi [] K l2 H3 eq_refl ltac:(discriminate) ltac:(discriminate) HK1 Ggi R2)
+    as (t2 & l3 & L3 & Ty2 & Li2 & _ & R3 & Cm2).
   exists (EMember t1 eO (EIdent (mkident t2 (id_value i))) false), (tsO ++ [t1] ++ [t2]), l3.
   split; [eapply lexes_app; [exact L1|eapply lexes_app; eassumption]|].
   split; [exact R3|]. split; [|split].
@@ -1843,8 +2206,14 @@ Proof.
     rewrite Ty2, Li2, str_eqb_refl. change (T_IDENT =? T_IDENT) with true. cbn [andb]. apply eat_tok_refl.
   - unfold shape_expr. cbn [tmap_expr]. change (tmap_expr norm_tok) with shape_expr. unfold tmap_ident. cbn [id_tok id_value]. rewrite SO.
     rewrite (norm_eq t1 t), (norm_eq t2 (id_tok i)) by congruence. reflexivity.
-  - exists t0, (ts0 ++ [t1] ++ [t2]). subst tsO. repeat split; try assumption; [apply X0|apply X0|].
-    rewrite !bnd_member, !nb_app. f_equal. apply X0.
+  - exists t0, (ts0 ++ [t1] ++ [t2]). subst tsO. repeat split; try assumption; [apply X0|apply X0| |].
+    { rewrite !bnd_member, !nb_app. f_equal. apply X0. }
+    cbn [write_expr]. unfold write_ident. cbn [id_tok id_value]. rewrite !app_nil_r. apply WX_ext; [apply X0|]. intro mp2.
+    rewrite prun_lead, Cm1. unfold gp. rewrite (GF_G [] lv _ pend_ok_nil Hcs (ST_nil lv)). fold gp.
+    rewrite !(PrettyWr.prun_cons indent), pt_rune, fl_nil. cbn [app].
+    rewrite <- !(PrettyWr.prun_cons indent), prun_lead_named, Cm2. unfold gi.
+    rewrite (GF_G [] lv _ pend_ok_nil Hci (ST_nil lv)). fold gi.
+    rewrite prun_cons_ps, pt_string, fl_nil, prun_nil. pfeq.
 Qed.
 
 Lemma P_array lb es rb : punct lb T_LBRACKET = true -> punct rb T_RBRACKET = true ->
@@ -1868,7 +2237,7 @@ Proof.
     f_equal. rewrite <- !app_assoc. reflexivity. }
   split; [apply G_gap; assumption|].
   split; [intros _; apply nofuse_other; discriminate|].
-  split; [split; [intros H1 H2; apply G_nolf; assumption|apply GL_G; assumption]|]. split; [reflexivity|].
+  split; [split; [intros H1 H2; apply G_nolf; assumption|split; [apply GL_G; assumption|apply GF_G; assumption]]|]. split; [reflexivity|].
   intros K HK gs l Tg Hl.
   change (91%N :: body2 ++ gc ++ [93%N]) with ([91%N] ++ body2 ++ gc ++ [93%N]) in Hl.
   destruct (P_punct0_c T_LBRACKET [91%N] gs _ K l type_text_lbracket ltac:(pfree) Tg Hl)
@@ -1876,10 +2245,10 @@ Proof.
   rewrite rta_app in R2.
   assert (KK : kont (rta (gc ++ [93%N]) K)).
   { apply kont_gap_char; [exact Ggc|reflexivity|discriminate|reflexivity|discriminate]. }
-  destruct (Lx2 _ KK l2 R2) as (es' & tsA & l3 & L3 & R3 & MA & SA & XA).
+  destruct (Lx2 _ KK l2 R2) as (es' & tsA & l3 & L3 & R3 & MA & SA & XA & WA).
   rewrite <- (app_nil_r [93%N]) in R3.
-  destruct (P_punct T_RBRACKET [93%N] gc [] K l3 type_text_rbracket ltac:(pfree) Ggc R3)
-    as (t2 & l4 & L4 & T2 & I2 & _ & R4).
+  destruct (P_punct_c T_RBRACKET [93%N] gc [] K l3 type_text_rbracket ltac:(pfree) Ggc R3)
+    as (t2 & l4 & L4 & T2 & I2 & _ & R4 & Cm2).
   exists (EArray t1 es' t2), ([t1] ++ tsA ++ [t2]), l4.
   split; [eapply lexes_app; [exact L2|eapply lexes_app; eassumption]|].
   split; [exact R4|]. split; [|split].
@@ -1888,20 +2257,28 @@ Proof.
     rewrite eat_tok_refl, <- app_assoc, MA. cbn [app]. apply eat_tok_refl.
   - unfold shape_expr. cbn [tmap_expr]. change (tmap_expr norm_tok) with shape_expr. rewrite SA.
     rewrite (norm_eq t1 lb), (norm_eq t2 rb) by congruence. reflexivity.
-  - exists t1, (tsA ++ [t2]). repeat split; assumption.
+  - exists t1, (tsA ++ [t2]). repeat split; try assumption.
+    rewrite <- C1. eapply WX_lead; [reflexivity|apply FF_mapping|]. intro mp2.
+    rewrite !(PrettyWr.prun_cons indent), pt_mapping, fl_nil, app_nil_r, pt_rune, fl_nil, pt_inc. cbn [app].
+    rewrite (PrettyWr.prun_app indent). fold (sepx es'). rewrite (WA (ST_nil (lv + 1))).
+    assert (E : (match es with [] => @nil N | _ :: _ => [] end) = []) by (destruct es; reflexivity).
+    rewrite E. rewrite prun_close by exact Hlv. rewrite prun_nil, Cm2. unfold gc. rewrite (Gc_tcm lv _ Hc2). pfeq.
 Qed.
 
 (* ---------- object literals ---------- *)
 
-Definition LxPR (body : str) (gl : list (expr * expr)) : Prop :=
+Definition seppr (gl : list (expr * expr)) : list wop := sep_map [WRune 44%N; WSpace] prop_ops gl.
+
+Definition LxPR (b : str) (pd : list N) (lv : Z) (body : str) (gl : list (expr * expr)) : Prop :=
   forall K, kont K -> forall l, l_rest l = rta body K ->
     exists ps' ts l', lexes l ts l' /\ l_rest l' = K /\
       (forall R, m_props m_expr ps' (ts ++ R) = Some R) /\ map shp ps' = map shp gl /\
-      nb (bnd_props ps') = nb (bnd_props gl).
+      nb (bnd_props ps') = nb (bnd_props gl) /\
+      (ST pd lv -> forall mp2, prun (ps b pd lv mp2) (seppr ps') = ps (b ++ body) (match gl with [] => pd | _ => [] end) lv mp2).
 
 Definition PPR (ops : list wop) (gl : list (expr * expr)) : Prop :=
   forall b pd lv mp, 0 <= lv -> pend_ok pd -> exists body,
-    prun (ps b pd lv mp) ops = ps (b ++ body) (match gl with [] => pd | _ => [] end) lv mp /\ LxPR body gl.
+    prun (ps b pd lv mp) ops = ps (b ++ body) (match gl with [] => pd | _ => [] end) lv mp /\ LxPR b pd lv body gl.
 
 Lemma kont_colon X K : kont (rta (58%N :: X) K).
 Proof. rewrite rta_cons_nb by discriminate. apply kont_cons; [reflexivity|discriminate]. Qed.
@@ -1911,16 +2288,19 @@ Lemma PPR_sep gl : Forall (fun kv => key_ok (fst kv) = true /\ PEx (fst kv) /\ P
 Proof.
   induction 1 as [|[k v] gl (Kk & (lk & ck & Ok & Jk) & (lv0 & cv & Ov & Jv)) Hps IH]; intros b pd lv mp Hlv Hpd.
   - exists []. split; [rewrite app_nil_r; reflexivity|].
-    intros K HK l Hl. exists [], [], l. repeat split; try constructor. exact Hl.
+    intros K HK l Hl. exists [], [], l. repeat split; try constructor; [exact Hl|].
+    intros _ mp2. unfold seppr. cbn [sep_map]. rewrite prun_nil, app_nil_r. reflexivity.
   - cbn [fst snd] in *.
-    destruct (Jk b pd lv mp Hlv Hpd) as (g & body & W & Gg & _ & _ & Hd & Lx).
-    destruct (Jv ((b ++ g ++ body) ++ [58%N]) [32%N] lv mp Hlv pend_ok_sp) as (g2 & body2 & W2 & Gg2 & _ & _ & Hd2 & Lx2).
+    destruct (Jk b pd lv mp Hlv Hpd) as (g & body & W & Gg & _ & (_ & _ & Gfk) & Hd & Lx).
+    destruct (Jv ((b ++ g ++ body) ++ [58%N]) [32%N] lv mp Hlv pend_ok_sp) as (g2 & body2 & W2 & Gg2 & _ & (_ & _ & Gfv) & Hd2 & Lx2).
     assert (ONE : forall X K, kont (rta X K) -> forall l, l_rest l = rta (g ++ body ++ 58%N :: g2 ++ body2 ++ X) K ->
               exists k' v' ts l', lexes l ts l' /\ l_rest l' = rta X K /\ key_ok k' = true /\
                 (forall R, exists R1, m_expr k' (ts ++ R) = Some R1 /\
                    exists tc R2, eat T_COLON R1 = Some (tc, R2) /\ m_expr v' R2 = Some R) /\
                 shape_expr k' = shape_expr k /\ shape_expr v' = shape_expr v /\
-                nb (bnd_expr k') = nb (bnd_expr k) /\ nb (bnd_expr v') = nb (bnd_expr v)).
+                nb (bnd_expr k') = nb (bnd_expr k) /\ nb (bnd_expr v') = nb (bnd_expr v) /\
+                (ST pd lv -> forall mp2, prun (ps b pd lv mp2) (prop_ops (k', v')) =
+                    ps (b ++ g ++ body ++ 58%N :: g2 ++ body2) [] lv mp2)).
     { intros X K HK l Hl.
       destruct (LxE_gap g body k _ ck (58%N :: g2 ++ body2 ++ X) K l Lx Gg Hd Ok (kont_colon _ _) Hl)
         as (k' & tsk & l1 & L1 & R1 & Mk & Sk & tq & tsq & _ & _ & _ & Xk).
@@ -1928,40 +2308,50 @@ Proof.
       destruct (LxE_gap g2 body2 v _ cv X K l2 Lx2 Gg2 Hd2 Ov HK R2) as (v' & tsv & l3 & L3 & R3 & Mv & Sv & tq2 & tsq2 & _ & _ & _ & Xv).
       exists k', v', (tsk ++ [tc] ++ tsv), l3.
       split; [eapply lexes_app; [exact L1|eapply lexes_app; eassumption]|]. split; [exact R3|].
-      split; [rewrite (key_ok_shape _ _ Sk); exact Kk|]. split; [|split; [exact Sk|split; [exact Sv|split; [apply Xk|apply Xv]]]].
-      intro R. eexists. rewrite <- !app_assoc. split; [apply Mk|].
+      split; [rewrite (key_ok_shape _ _ Sk); exact Kk|]. split; [|split; [exact Sk|split; [exact Sv|split; [apply Xk|split; [apply Xv|]]]]].
+      - intro R. eexists. rewrite <- !app_assoc. split; [apply Mk|].
       cbn [app eat]. rewrite Tc. change (T_COLON =? T_COLON) with true. cbn iota.
-      do 2 eexists. split; [reflexivity|apply Mv]. }
+        do 2 eexists. split; [reflexivity|apply Mv].
+      - intros St mp2. unfold prop_ops. cbn [fst snd]. rewrite app_nil_r, (PrettyWr.prun_app indent).
+        wx_sub Xk pd (Gfk St). rewrite !(PrettyWr.prun_cons indent), pt_rune, fl_nil, pt_space, add_pend_nil. cbn [app].
+        setbuf ((b ++ g ++ body) ++ [58%N]).
+        wx_sub Xv [32%N] (Gfv (ST_sp lv)). pfeq. }
     destruct gl as [|kv2 gl'].
     + exists (g ++ body ++ 58%N :: g2 ++ body2). split.
       { rewrite sep_map_one. unfold prop_ops. cbn [fst snd]. rewrite app_nil_r, prun_app, W. psimp. cbn [app]. rewrite W2.
         f_equal. rewrite <- !app_assoc. reflexivity. }
       intros K HK l Hl.
-      destruct (ONE [] K HK l) as (k' & v' & ts & l' & L & R & Kk' & M & Sk & Sv & Bk & Bv).
+      destruct (ONE [] K HK l) as (k' & v' & ts & l' & L & R & Kk' & M & Sk & Sv & Bk & Bv & Wkv).
       { rewrite Hl, !app_nil_r. reflexivity. }
-      exists [(k', v')], ts, l'. split; [exact L|]. split; [exact R|]. split; [|split].
+      exists [(k', v')], ts, l'. split; [exact L|]. split; [exact R|]. split; [|split; [|split]].
       * intro R0. cbn [m_props]. rewrite Kk'. cbn [negb].
         destruct (M R0) as (R1 & -> & tc & R2 & -> & ->). reflexivity.
       * cbn [map]. unfold shp. cbn [fst snd]. rewrite Sk, Sv. reflexivity.
       * rewrite !bnd_props_cons, !nb_app. cbn [bnd_props flat_map]. rewrite Bk, Bv. reflexivity.
+      * intros St mp2. unfold seppr. rewrite sep_map_one, (Wkv St). reflexivity.
     + destruct (IH ((((b ++ g ++ body) ++ [58%N]) ++ g2 ++ body2) ++ [44%N]) [32%N] lv mp Hlv pend_ok_sp) as (body3 & W3 & Lx3).
       exists ((g ++ body ++ 58%N :: g2 ++ body2) ++ 44%N :: body3). split.
       { rewrite sep_map_cons2. unfold prop_ops at 1. cbn [fst snd]. rewrite app_nil_r, !prun_app, W. psimp. cbn [app].
         rewrite W2. psimp. cbn [app]. rewrite W3. f_equal. rewrite <- !app_assoc. cbn [app]. rewrite <- !app_assoc. reflexivity. }
       intros K HK l Hl.
-      destruct (ONE (44%N :: body3) K (kont_comma _ _) l) as (k' & v' & ts & l1 & L1 & R1 & Kk' & M & Sk & Sv & Bk & Bv).
+      destruct (ONE (44%N :: body3) K (kont_comma _ _) l) as (k' & v' & ts & l1 & L1 & R1 & Kk' & M & Sk & Sv & Bk & Bv & Wkv).
       { rewrite Hl, <- !app_assoc. cbn [app]. rewrite <- !app_assoc. reflexivity. }
       destruct (P_comma [] body3 K l1 wgap_nil R1) as (tc & l2 & L2 & Tc & R2).
-      destruct (Lx3 K HK l2 R2) as (ps2 & ts2 & l3 & L3 & R3 & M3 & S3 & X3).
+      destruct (Lx3 K HK l2 R2) as (ps2 & ts2 & l3 & L3 & R3 & M3 & S3 & X3 & W3').
       exists ((k', v') :: ps2), (ts ++ [tc] ++ ts2), l3.
       split; [eapply lexes_app; [exact L1|eapply lexes_app; eassumption]|]. split; [exact R3|].
-      split; [|split].
+      split; [|split; [|split]].
       * intro R0. destruct ps2 as [|p2 ps2']; [discriminate S3|].
         cbn [m_props]. rewrite Kk'. cbn [negb]. rewrite <- !app_assoc.
         destruct (M ([tc] ++ ts2 ++ R0)) as (Ra & -> & tcc & Rb & -> & ->).
         cbn [app eat]. rewrite Tc. change (T_COMMA =? T_COMMA) with true. cbn iota. apply M3.
       * cbn [map]. unfold shp at 1 3. cbn [fst snd]. rewrite Sk, Sv. f_equal. exact S3.
       * rewrite (bnd_props_cons k'), (bnd_props_cons k), !nb_app, Bk, Bv, X3. reflexivity.
+      * intros St mp2. destruct ps2 as [|p2 ps2']; [discriminate S3|].
+        unfold seppr. rewrite sep_map_cons2, !(PrettyWr.prun_app indent), (Wkv St).
+        rewrite !(PrettyWr.prun_cons indent), pt_rune, fl_nil, pt_space, add_pend_nil, prun_nil. cbn [app].
+        setbuf ((((b ++ g ++ body) ++ [58%N]) ++ g2 ++ body2) ++ [44%N]).
+        fold (seppr (p2 :: ps2')). rewrite (W3' (ST_sp lv)). pfeq.
 Qed.
 
 Lemma P_object lb gl rb : punct lb T_LBRACE = true ->
@@ -1986,7 +2376,7 @@ Proof.
     f_equal. rewrite <- !app_assoc. reflexivity. }
   split; [apply G_gap; assumption|].
   split; [intros _; apply nofuse_other; discriminate|].
-  split; [split; [intros H1 H2; apply G_nolf; assumption|apply GL_G; assumption]|]. split; [reflexivity|].
+  split; [split; [intros H1 H2; apply G_nolf; assumption|split; [apply GL_G; assumption|apply GF_G; assumption]]|]. split; [reflexivity|].
   intros K HK gs l Tg Hl.
   change (123%N :: body2 ++ gc ++ [125%N]) with ([123%N] ++ body2 ++ gc ++ [125%N]) in Hl.
   destruct (P_punct0_c T_LBRACE [123%N] gs _ K l type_text_lbrace ltac:(pfree) Tg Hl)
@@ -1994,10 +2384,10 @@ Proof.
   rewrite rta_app in R2.
   assert (KK : kont (rta (gc ++ [125%N]) K)).
   { apply kont_gap_char; [exact Ggc|reflexivity|discriminate|reflexivity|discriminate]. }
-  destruct (Lx2 _ KK l2 R2) as (ps' & tsA & l3 & L3 & R3 & MA & SA & XA).
+  destruct (Lx2 _ KK l2 R2) as (ps' & tsA & l3 & L3 & R3 & MA & SA & XA & WA).
   rewrite <- (app_nil_r [125%N]) in R3.
-  destruct (P_punct T_RBRACE [125%N] gc [] K l3 type_text_rbrace ltac:(pfree) Ggc R3)
-    as (t2 & l4 & L4 & T2 & I2 & _ & R4).
+  destruct (P_punct_c T_RBRACE [125%N] gc [] K l3 type_text_rbrace ltac:(pfree) Ggc R3)
+    as (t2 & l4 & L4 & T2 & I2 & _ & R4 & Cm2).
   destruct gl as [|kv ps0].
   - apply tok_eqb_eq in Hl3. subst rb.
     destruct ps' as [|? ?]; [|discriminate SA].
@@ -2010,7 +2400,12 @@ Proof.
     + intro R. cbn [m_expr]. rewrite T1. change (T_LBRACE =? T_LBRACE) with true. cbn [negb app].
       rewrite eat_tok_refl. rewrite tok_eqb_refl. cbn [app eat]. rewrite T2. reflexivity.
     + unfold shape_expr. cbn [tmap_expr map]. rewrite (norm_eq t1 lb) by congruence. reflexivity.
-    + exists t1, ([] ++ [t2]). repeat split; assumption.
+    + exists t1, ([] ++ [t2]). repeat split; try assumption.
+      rewrite <- C1. eapply WX_lead; [reflexivity|apply FF_mapping|]. intro mp2.
+      rewrite !(PrettyWr.prun_cons indent), pt_mapping, fl_nil, app_nil_r, pt_rune, fl_nil, pt_inc. cbn [app sep_map].
+      change (t_comments zero_token) with (@nil str).
+      pose proof (WA (ST_nil (lv + 1)) mp2) as Q. unfold seppr in Q. cbn [sep_map] in Q. rewrite prun_nil in Q. rewrite Q.
+      rewrite prun_close by exact Hlv. rewrite prun_nil. unfold gc. cbn [t_comments zero_token PrettyWr.Gc]. pfeq.
   - destruct (punct_inv _ _ Hl3) as [Ty2 TT2]. rewrite type_text_rbrace in TT2. inversion TT2 as [Li2].
     destruct ps' as [|p' ps'']; [discriminate SA|].
     exists (EObject t1 (p' :: ps'') t2), ([t1] ++ tsA ++ [t2]), l4.
@@ -2023,7 +2418,12 @@ Proof.
       fold shp. change (fun kv : expr * expr => shp kv) with shp.
       rewrite (norm_eq t1 lb), (norm_eq t2 rb) by congruence.
       f_equal. exact SA.
-    + exists t1, (tsA ++ [t2]). repeat split; try assumption. rewrite !bnd_object. exact XA.
+    + exists t1, (tsA ++ [t2]). repeat split; try assumption; [rewrite !bnd_object; exact XA|].
+      rewrite <- C1. eapply WX_lead; [reflexivity|apply FF_mapping|]. intro mp2.
+      rewrite !(PrettyWr.prun_cons indent), pt_mapping, fl_nil, app_nil_r, pt_rune, fl_nil, pt_inc. cbn [app].
+      fold prop_ops. change (fun prop : expr * expr => prop_ops prop) with prop_ops.
+      rewrite (PrettyWr.prun_app indent). fold (seppr (p' :: ps'')). rewrite (WA (ST_nil (lv + 1))).
+      rewrite prun_close by exact Hlv. rewrite prun_nil, Cm2. unfold gc. rewrite (Gc_tcm lv _ Hc2). pfeq.
 Qed.
 
 (* ================================================================== *)
@@ -2034,12 +2434,12 @@ Lemma P_ident_step i g X K l : ident_lexical i = true -> wgap g ->
   is_ident_char (hd 0%N (rta X K)) = false -> l_rest l = rta (g ++ id_value i ++ X) K ->
   exists t l', lexes l [t] l' /\ t_type t = T_IDENT /\ t_lit t = id_value i /\ l_rest l' = rta X K /\
     (forall R, m_ident (mkident t (id_value i)) (t :: R) = Some R) /\
-    tmap_ident norm_tok (mkident t (id_value i)) = tmap_ident norm_tok i.
+    tmap_ident norm_tok (mkident t (id_value i)) = tmap_ident norm_tok i /\ t_comments t = tcm g.
 Proof.
   intros H Gg HK Hl. unfold ident_lexical in H. apply andb_true_iff in H as [H H3].
   apply andb_true_iff in H as [H1 H2]. apply Z.eqb_eq in H1. apply str_eqb_spec in H2.
-  destruct (P_word _ _ g X K l H3 eq_refl ltac:(discriminate) ltac:(discriminate) HK Gg Hl)
-    as (t & l' & L & Ty & Li & _ & R).
+  destruct (P_word_c _ _ g X K l H3 eq_refl ltac:(discriminate) ltac:(discriminate) HK Gg Hl)
+    as (t & l' & L & Ty & Li & _ & R & Cm).
   exists t, l'. repeat split; try assumption.
   - intro R0. unfold m_ident, ident_ok. cbn [id_tok id_value]. rewrite Ty, Li, str_eqb_refl.
     change (T_IDENT =? T_IDENT) with true. cbn [andb]. apply eat_tok_refl.
@@ -2056,12 +2456,20 @@ Proof. rewrite has_lf_cons. reflexivity. Qed.
 
 (* ---------- let name [= value] ---------- *)
 
-Definition LxLet (body : str) (t : token) (name : ident) (v : expr) : Prop :=
+Definition let_tail (t : token) (name : ident) (v : expr) : list wop :=
+  WMapping (t_start t) :: WString (kw_let ++ [32%N]) :: write_ident name ++
+  (if negb (is_enil v) then WSpace :: WRune 61%N :: WSpace :: write_expr v ++ [] else []).
+
+Lemma let_ops_eq t name v : let_ops t name v = WComments (t_comments t) :: let_tail t name v.
+Proof. reflexivity. Qed.
+
+Definition LxLet (b : str) (lv : Z) (g0 body : str) (t : token) (name : ident) (v : expr) : Prop :=
   forall K, kont K -> forall gs l, trv gs -> l_rest l = gs ++ rta body K ->
     exists t1 n' v' ts l', lexes l (t1 :: id_tok n' :: ts) l' /\ l_rest l' = K /\
       t_type t1 = T_LET /\ norm_tok t1 = norm_tok t /\ t_nl t1 = has_lf gs /\ t_comments t1 = tcm gs /\
       (forall R, m_ident n' (id_tok n' :: R) = Some R) /\ tmap_ident norm_tok n' = tmap_ident norm_tok name /\
       shape_expr v' = shape_expr v /\ nb (bnd_expr v') = nb (bnd_expr v) /\
+      (forall tt mp2, prun (ps (b ++ g0) [] lv mp2) (let_tail tt n' v') = ps (b ++ g0 ++ body) [] lv mp2) /\
       ((is_enil v = true /\ ts = []) \/
        (is_enil v = false /\ exists teq tsv, ts = teq :: tsv /\ t_type teq = T_ASSIGN /\
           forall R, m_expr v' (tsv ++ R) = Some R)).
@@ -2069,7 +2477,7 @@ Definition LxLet (body : str) (t : token) (name : ident) (v : expr) : Prop :=
 Definition PLet (t : token) (name : ident) (v : expr) : Prop :=
   forall b pd lv mp, 0 <= lv -> pend_ok pd -> exists body,
     prun (ps b pd lv mp) (let_ops t name v) = ps (b ++ G pd lv (t_comments t) ++ body) [] lv mp /\
-    hd 0%N body = 108%N /\ LxLet body t name v.
+    hd 0%N body = 108%N /\ LxLet b lv (G pd lv (t_comments t)) body t name v.
 
 Lemma P_let_core t name v lv0 : t_type t = T_LET -> t_lit t = kw_let -> ident_lexical name = true ->
   NLF (t_comments (id_tok name)) -> (is_enil v = false -> PE v lv0) -> PLet t name v.
@@ -2090,14 +2498,19 @@ Proof.
     { rewrite <- (app_nil_r (id_value name)).
       apply (nic_gap (32%N :: gn) (id_value name) [] K _ Ggn eq_refl (letter_sst _ HL)). discriminate. }
     rewrite <- (app_nil_r (id_value name)) in R1.
-    destruct (P_ident_step name (32%N :: gn) [] K l1 Hn Ggn HK R1) as (t2 & l2 & L2 & Ty2 & Li2 & R2 & M2 & S2).
+    destruct (P_ident_step name (32%N :: gn) [] K l1 Hn Ggn HK R1) as (t2 & l2 & L2 & Ty2 & Li2 & R2 & M2 & S2 & Cm2).
     exists t1, (mkident t2 (id_value name)), v, [], l2. cbn [id_tok].
     split; [exact (lexes_app _ _ _ _ _ L1 L2)|]. split; [exact R2|]. split; [exact Ty1|].
     split; [apply norm_eq; congruence|]. split; [exact Nl1|]. split; [exact C1|]. split; [exact M2|]. split; [exact S2|]. split; [reflexivity|].
-    split; [reflexivity|]. left. split; [exact Ev|reflexivity].
+    split; [reflexivity|]. split; [|left; split; [exact Ev|reflexivity]].
+    intros tt mp2. unfold let_tail, write_ident. cbn [id_tok id_value]. rewrite Ev. cbn [negb]. rewrite app_nil_r.
+    rewrite !(PrettyWr.prun_cons indent), pt_mapping, fl_nil, app_nil_r, pt_string, fl_nil. cbn [app].
+    rewrite <- !(PrettyWr.prun_cons indent), prun_lead_named, Cm2, tcm_sp. unfold gn.
+    rewrite (GF_G [] lv _ pend_ok_nil Hcn (ST_nil lv)). fold gn.
+    rewrite prun_cons_ps, pt_string, fl_nil, prun_nil. pfeq.
   - destruct (Jv eq_refl) as (cv & Ov & J).
     destruct (J ((((b ++ G pd lv (t_comments t)) ++ kw_let ++ [32%N]) ++ gn ++ id_value name) ++ [32%N; 61%N]) [32%N] lv mp Hlv pend_ok_sp)
-      as (g2 & body2 & W & Gg2 & Gn2 & _ & Hd2 & Lx).
+      as (g2 & body2 & W & Gg2 & Gn2 & (_ & _ & Gf2) & Hd2 & Lx).
     exists (kw_let ++ (32%N :: gn) ++ id_value name ++ [32%N; 61%N] ++ g2 ++ body2). split.
     { unfold let_ops, write_ident. rewrite Ev. cbn [negb]. psimp. fold gn. cbn [app].
       match goal with |- prun (ps ?x _ _ _) _ = _ =>
@@ -2114,7 +2527,7 @@ Proof.
     { change ([32%N; 61%N] ++ g2 ++ body2) with ([32%N] ++ [61%N] ++ g2 ++ body2).
       apply (nic_gap [32%N] [61%N] _ K 61%N wgap_sp eq_refl); [split; [reflexivity|discriminate]|discriminate]. }
     destruct (P_ident_step name (32%N :: gn) ([32%N; 61%N] ++ g2 ++ body2) K l1 Hn Ggn NI R1)
-      as (t2 & l2 & L2 & Ty2 & Li2 & R2 & M2 & S2).
+      as (t2 & l2 & L2 & Ty2 & Li2 & R2 & M2 & S2 & Cm2).
     change ([32%N; 61%N] ++ g2 ++ body2) with ([32%N] ++ [61%N] ++ g2 ++ body2) in R2.
     assert (PB : pbnd [61%N] (hd 0%N (rta (g2 ++ body2) K))).
     { rewrite <- (app_nil_r body2).
@@ -2128,7 +2541,15 @@ Proof.
     split; [exact (lexes_app _ _ _ _ _ L1 (lexes_app _ _ _ _ _ L2 (lexes_app _ _ _ _ _ L3 L4)))|].
     split; [exact R4|]. split; [exact Ty1|].
     split; [apply norm_eq; congruence|]. split; [exact Nl1|]. split; [exact C1|]. split; [exact M2|]. split; [exact S2|]. split; [exact Sv|].
-    split; [apply Xv|]. right. split; [exact Ev|]. exists t3, tsv. split; [reflexivity|]. split; [exact Ty3|exact Mv].
+    split; [apply Xv|]. split; [|right; split; [exact Ev|]; exists t3, tsv; split; [reflexivity|]; split; [exact Ty3|exact Mv]].
+    intros tt mp2. unfold let_tail, write_ident. cbn [id_tok id_value]. rewrite (is_enil_shape _ _ Sv), Ev. cbn [negb].
+    rewrite !(PrettyWr.prun_cons indent), pt_mapping, fl_nil, app_nil_r, pt_string, fl_nil. cbn [app].
+    rewrite prun_lead_named, Cm2, tcm_sp. unfold gn.
+    rewrite (GF_G [] lv _ pend_ok_nil Hcn (ST_nil lv)). fold gn.
+    rewrite !(PrettyWr.prun_cons indent), pt_string, fl_nil, pt_space, add_pend_nil, pt_rune, fl_sp, pt_space, add_pend_nil.
+    rewrite (PrettyWr.prun_app indent).
+    setbuf ((((b ++ G pd lv (t_comments t)) ++ kw_let ++ [32%N]) ++ gn ++ id_value name) ++ [32%N; 61%N]).
+    wx_sub Xv [32%N] (Gf2 (ST_sp lv)). rewrite prun_nil. pfeq.
 Qed.
 
 Lemma P_let t name v lv0 : t_type t = T_LET -> t_lit t = kw_let -> ident_lexical name = true ->
@@ -2142,9 +2563,9 @@ Proof.
   { cbn [write_expr]. cbn [app]. rewrite app_nil_r. exact W. }
   split; [apply G_gap; assumption|].
   split; [intros _; apply nofuse_other; discriminate|].
-  split; [split; [intros H1 H2; apply G_nolf; assumption|apply GL_G; assumption]|]. split; [exact Hd|].
+  split; [split; [intros H1 H2; apply G_nolf; assumption|split; [apply GL_G; assumption|apply GF_G; assumption]]|]. split; [exact Hd|].
   intros K HK gs l Tg Hl.
-  destruct (Lx K HK gs l Tg Hl) as (t1 & n' & v' & ts & l' & L & R & Ty1 & N1 & Nl1 & C1 & Mn & Sn & Sv & Bv & C).
+  destruct (Lx K HK gs l Tg Hl) as (t1 & n' & v' & ts & l' & L & R & Ty1 & N1 & Nl1 & C1 & Mn & Sn & Sv & Bv & WL & C).
   exists (ELet t1 n' v'), (t1 :: id_tok n' :: ts), l'.
   split; [exact L|]. split; [exact R|]. split; [|split].
   - intro R0. cbn [m_expr app]. rewrite Ty1. change (T_LET =? T_LET) with true. cbn [negb].
@@ -2153,17 +2574,21 @@ Proof.
     + reflexivity.
     + cbn [app eat]. rewrite Teq. change (T_ASSIGN =? T_ASSIGN) with true. cbn iota. apply Mv.
   - unfold shape_expr in *. cbn [tmap_expr]. rewrite N1, Sn, Sv. reflexivity.
-  - cbn [first_type]. exists t1, (id_tok n' :: ts). repeat split; [congruence|exact Nl1|exact C1|exact Bv].
+  - cbn [first_type]. exists t1, (id_tok n' :: ts). repeat split; [congruence|exact Nl1|exact C1|exact Bv|].
+    rewrite <- C1. apply (WX_lead _ _ _ _ _ _ _ (let_tail t1 n' v')).
+    + unfold let_tail. cbn [write_expr app]. rewrite ?app_nil_r. reflexivity.
+    + apply FF_mapping.
+    + intro mp2. apply WL.
 Qed.
 
 (* ================================================================== *)
 (* 5. statements                                                       *)
 (* ================================================================== *)
 
-Definition LxS (body : str) (s : stmt) : Prop :=
+Definition LxS (b : str) (lv : Z) (g0 g body : str) (s : stmt) : Prop :=
   forall K gs l, trv gs -> l_rest l = gs ++ rta body K ->
     exists s' ts l', lexes l ts l' /\ ts <> [] /\ l_rest l' = K /\
-      (forall nx R, m_stmt s' nx (ts ++ R) = Some R) /\ shape_stmt s' = shape_stmt s /\ XS s' s (tcm gs).
+      (forall nx R, m_stmt s' nx (ts ++ R) = Some R) /\ shape_stmt s' = shape_stmt s /\ XS b lv g0 g body s' s (tcm gs).
 
 (* the text of a statement starts with a lexeme and ends in ';' or '}' *)
 Definition send (body : str) : Prop := last body 0%N = 59%N \/ last body 0%N = 125%N.
@@ -2180,17 +2605,18 @@ Proof. right. apply last_last. Qed.
 Lemma send_cons c b : b <> [] -> send b -> send (c :: b).
 Proof. intros Ne H. apply (send_app [c] b Ne H). Qed.
 
-Definition PSo (ops : list wop) (s : stmt) : Prop :=
-  forall b pd lv mp, 0 <= lv -> pend_ok pd -> exists g body,
-    prun (ps b pd lv mp) ops = ps (b ++ g ++ body) [] lv mp /\ wgap g /\ sbody body /\ LxS body s /\
-    exists t, first_tok_stmt s = Some t /\ GL pd g (t_comments t).
+Definition PSo (q : list N -> list N) (ops : list wop) (s : stmt) : Prop :=
+  forall b pd lv mp, 0 <= lv -> pend_ok pd -> exists g0 g body,
+    prun (ps b pd lv mp) ops = ps (b ++ g ++ body) [] lv mp /\ wgap g /\ sbody body /\ LxS b lv g0 g body s /\
+    (exists t, first_tok_stmt s = Some t /\ GL pd g (t_comments t)) /\
+    (ST (q pd) lv -> G (q pd) lv (tcm g) = g0).
 
-Definition PS (s : stmt) : Prop := PSo (write_stmt s) s.
+Definition PS (s : stmt) : Prop := PSo (fun pd => pd) (write_stmt s) s.
 
-Lemma LxS_gap g body s X K l : LxS body s -> wgap g -> sbody body ->
+Lemma LxS_gap {b lv g0 gE} g body s X K l : LxS b lv g0 gE body s -> wgap g -> sbody body ->
   l_rest l = rta (g ++ body ++ X) K ->
   exists s' ts l', lexes l ts l' /\ ts <> [] /\ l_rest l' = rta X K /\
-    (forall nx R, m_stmt s' nx (ts ++ R) = Some R) /\ shape_stmt s' = shape_stmt s /\ XS s' s (tcm g).
+    (forall nx R, m_stmt s' nx (ts ++ R) = Some R) /\ shape_stmt s' = shape_stmt s /\ XS b lv g0 gE body s' s (tcm g).
 Proof.
   intros Lx Gg [[[S1 S2] _] _] Hl.
   destruct (gap_split_c g body X K _ Gg eq_refl S1 S2) as (g' & E & T' & _ & _ & _ & _ & C').
@@ -2200,19 +2626,20 @@ Qed.
 Lemma kont_semi' X K : kont (rta (59%N :: X) K).
 Proof. rewrite rta_cons_nb by discriminate. apply kont_cons; [reflexivity|discriminate]. Qed.
 
-Lemma XS_intro s' s t0 cm : first_tok_stmt s' = Some t0 -> t_comments t0 = cm ->
-  nb (bnd_stmt s') = nb (bnd_stmt s) -> XS s' s cm.
-Proof. intros F C B. split; [rewrite F; cbn [trivia_of]; rewrite C; reflexivity|exact B]. Qed.
+Lemma XS_intro {b lv g0 g body} s' s t0 cm : first_tok_stmt s' = Some t0 -> t_comments t0 = cm ->
+  nb (bnd_stmt s') = nb (bnd_stmt s) -> WX (write_stmt s') cm b lv g0 g body -> XS b lv g0 g body s' s cm.
+Proof. intros F C B W. split; [rewrite F; cbn [trivia_of]; rewrite C; reflexivity|split; [exact B|exact W]].
+Qed.
 
 Lemma P_sexpr e le tf : PE e le -> first_tok_expr e = Some tf -> t_comments tf = le ->
   is_enil e = false -> statement_keyword (first_type e) = false -> PS (SExpr e).
 Proof.
   intros (c & Oc & J) Ftf Ctf Ne Kw b pd lv mp Hlv Hpd.
-  destruct (J b pd lv mp Hlv Hpd) as (g & body & W & Gg & _ & [_ Gl] & Hd & Lx).
-  exists g, (body ++ [59%N]). split.
+  destruct (J b pd lv mp Hlv Hpd) as (g & body & W & Gg & _ & (_ & Gl & Gf) & Hd & Lx).
+  exists (G pd lv le), g, (body ++ [59%N]). split.
   { cbn [write_stmt]. rewrite Ne. rewrite prun_app, W. psimp. cbn [app]. f_equal. rewrite <- !app_assoc. reflexivity. }
   split; [exact Gg|]. split; [split; [rewrite (hd_app_ost body _ c Oc Hd); split; [apply ost_sst; exact Oc|apply ost_nsp; exact Oc]|apply send_semi]|].
-  split; [|exists tf; split; [exact Ftf|rewrite Ctf; exact Gl]].
+  split; [|split; [exists tf; split; [exact Ftf|rewrite Ctf; exact Gl]|exact Gf]].
   intros K gs l Tg Hl. rewrite rta_app in Hl.
   destruct (Lx _ (kont_semi' [] K) gs l Tg Hl) as (e' & ts & l1 & L1 & R1 & M & S & (t0 & ts0 & E & F & _ & X0)).
   destruct (P_semi [] [] K l1 wgap_nil R1) as (tsemi & l2 & L2 & Tsemi & R2).
@@ -2221,15 +2648,17 @@ Proof.
   - intros nx R. rewrite <- app_assoc. cbn [m_stmt]. rewrite E at 1. cbn [app].
     rewrite F, Kw, M. apply m_end_semi. exact Tsemi.
   - cbn [shape_stmt tmap_stmt]. change (tmap_expr norm_tok) with shape_expr. rewrite S. reflexivity.
-  - apply (XS_intro _ _ t0); [apply X0|apply X0|rewrite !bnd_sexpr; apply X0].
+  - apply (XS_intro _ _ t0); [apply X0|apply X0|rewrite !bnd_sexpr; apply X0|].
+    cbn [write_stmt]. rewrite (is_enil_shape _ _ S), Ne. apply WX_ext; [apply X0|]. intro mp2.
+    rewrite prun_cons_ps, pt_semi, fl_nil, prun_nil. pfeq.
 Qed.
 
-Ltac gl_first t := split; [|exists t; split; [reflexivity|apply GL_G; assumption]].
+Ltac gl_first t := split; [|split; [exists t; split; [reflexivity|apply GL_G; assumption]|apply GF_G; assumption]].
 
 Lemma P_slet t name v : NLF (t_comments t) -> PLet t name v -> PS (SLet t name v).
 Proof.
   intros Hct JL b pd lv mp Hlv Hpd. destruct (JL b pd lv mp Hlv Hpd) as (body & W & Hd & Lx).
-  exists (G pd lv (t_comments t)), (body ++ [59%N]). split.
+  exists (G pd lv (t_comments t)), (G pd lv (t_comments t)), (body ++ [59%N]). split.
   { cbn [write_stmt].
     match goal with |- prun _ ?ops = _ => replace ops with (let_ops t name v ++ [WSemi])
       by (unfold let_ops; cbn [app]; rewrite <- !app_assoc; reflexivity) end.
@@ -2239,7 +2668,7 @@ Proof.
   { split; [|apply send_semi]. destruct body as [|x body']; [discriminate Hd|]. cbn [hd app] in *. subst x. split; [split; [reflexivity|discriminate]|reflexivity]. }
   gl_first t.
   intros K gs l Tg Hl. rewrite rta_app in Hl.
-  destruct (Lx _ (kont_semi' [] K) gs l Tg Hl) as (t1 & n' & v' & ts & l1 & L & R & Ty1 & N1 & _ & C1 & Mn & Sn & Sv & Bv & C).
+  destruct (Lx _ (kont_semi' [] K) gs l Tg Hl) as (t1 & n' & v' & ts & l1 & L & R & Ty1 & N1 & _ & C1 & Mn & Sn & Sv & Bv & WL & C).
   destruct (P_semi [] [] K l1 wgap_nil R) as (tsemi & l2 & L2 & Tsemi & R2).
   exists (SLet t1 n' v'), ((t1 :: id_tok n' :: ts) ++ [tsemi]), l2.
   split; [eapply lexes_app; eassumption|]. split; [discriminate|]. split; [exact R2|]. split; [|split].
@@ -2250,7 +2679,11 @@ Proof.
     + cbn [app eat]. rewrite Teq. change (T_ASSIGN =? T_ASSIGN) with true. cbn iota.
       rewrite <- app_assoc, Mv. cbn [app]. apply m_end_semi. exact Tsemi.
   - cbn [shape_stmt tmap_stmt]. change (tmap_expr norm_tok) with shape_expr. rewrite N1, Sn, Sv. reflexivity.
-  - apply (XS_intro _ _ t1); [reflexivity|exact C1|exact Bv].
+  - apply (XS_intro _ _ t1); [reflexivity|exact C1|exact Bv|].
+    rewrite <- C1. apply (WX_lead _ _ _ _ _ _ _ (let_tail t1 n' v' ++ [WSemi])).
+    + unfold let_tail. cbn [write_stmt app]. rewrite <- ?app_assoc. reflexivity.
+    + unfold let_tail. cbn [app]. apply FF_mapping.
+    + intro mp2. rewrite (PrettyWr.prun_app indent), WL, prun_cons_ps, pt_semi, fl_nil, prun_nil. pfeq.
 Qed.
 
 Lemma nic_semi X K : is_ident_char (hd 0%N (rta (59%N :: X) K)) = false.
@@ -2262,7 +2695,7 @@ Lemma P_sreturn t v : t_type t = T_RETURN -> t_lit t = kw_return -> NLF (t_comme
 Proof.
   intros Ty Li Hct Jv b pd lv mp Hlv Hpd.
   destruct (is_enil v) eqn:Ev.
-  - exists (G pd lv (t_comments t)), (kw_return ++ [59%N]). split.
+  - exists (G pd lv (t_comments t)), (G pd lv (t_comments t)), (kw_return ++ [59%N]). split.
     { cbn [write_stmt]. rewrite Ev. cbn [negb app]. psimp. cbn [app]. f_equal. unfold kw_return. rewrite <- !app_assoc. reflexivity. }
     split; [apply G_gap; assumption|]. split; [split; [split; [split; [reflexivity|discriminate]|reflexivity]|apply send_semi]|].
     gl_first t.
@@ -2275,11 +2708,15 @@ Proof.
     + intros nx R. cbn [m_stmt app]. rewrite Ty1. change (T_RETURN =? T_RETURN) with true. cbn [negb].
       rewrite eat_tok_refl, enil_match, Ev. apply m_end_semi. exact Tsemi.
     + cbn [shape_stmt tmap_stmt]. rewrite (norm_eq t1 t) by congruence. reflexivity.
-    + apply (XS_intro _ _ t1); [reflexivity|exact C1|reflexivity].
+    + apply (XS_intro _ _ t1); [reflexivity|exact C1|reflexivity|].
+      rewrite <- C1. cbn [write_stmt]. rewrite Ev. cbn [negb app].
+      eapply WX_lead; [reflexivity|apply FF_mapping|]. intro mp2.
+      rewrite !(PrettyWr.prun_cons indent), pt_mapping, fl_nil, app_nil_r, pt_string, fl_nil, pt_semi, fl_nil, prun_nil.
+      change [114%N; 101%N; 116%N; 117%N; 114%N; 110%N] with kw_return. pfeq.
   - destruct (Jv eq_refl) as (cv & Ov & J).
     destruct (J (((b ++ G pd lv (t_comments t)) ++ kw_return) ++ [32%N]) [] lv mp Hlv pend_ok_nil)
       as (g2 & body2 & W & Gg2 & _ & Gl2 & Hd2 & Lx).
-    exists (G pd lv (t_comments t)), (kw_return ++ (32%N :: g2) ++ body2 ++ [59%N]). split.
+    exists (G pd lv (t_comments t)), (G pd lv (t_comments t)), (kw_return ++ (32%N :: g2) ++ body2 ++ [59%N]). split.
     { cbn [write_stmt]. rewrite Ev. cbn [negb]. psimp. cbn [app].
       change [114%N; 101%N; 116%N; 117%N; 114%N; 110%N] with kw_return.
       rewrite W. psimp. cbn [app]. f_equal. rewrite <- !app_assoc. reflexivity. }
@@ -2305,22 +2742,32 @@ Proof.
       rewrite Nl0, M. apply m_end_semi. exact Tsemi.
     + cbn [shape_stmt tmap_stmt]. change (tmap_expr norm_tok) with shape_expr.
       rewrite S, (norm_eq t1 t) by congruence. reflexivity.
-    + apply (XS_intro _ _ t1); [reflexivity|exact C1|rewrite !bnd_sreturn; apply Xv].
+    + apply (XS_intro _ _ t1); [reflexivity|exact C1|rewrite !bnd_sreturn; apply Xv|].
+      rewrite <- C1. cbn [write_stmt]. rewrite (is_enil_shape _ _ S), Ev. cbn [negb app].
+      eapply WX_lead; [reflexivity|apply FF_mapping|]. intro mp2.
+      rewrite !(PrettyWr.prun_cons indent), pt_mapping, fl_nil, app_nil_r, pt_string, fl_nil, pt_rune, fl_nil.
+      change [114%N; 101%N; 116%N; 117%N; 114%N; 110%N] with kw_return. cbn [app].
+      rewrite <- app_assoc, (PrettyWr.prun_app indent), app_nil_r.
+      setbuf (((b ++ G pd lv (t_comments t)) ++ kw_return) ++ [32%N]).
+      rewrite tcm_sp in Xv. wx_sub Xv (@nil N) (proj2 (proj2 Gl2) (ST_nil lv)).
+      rewrite prun_cons_ps, pt_semi, fl_nil, prun_nil. pfeq.
 Qed.
 
 (* ---------- statement lists ---------- *)
 
-Definition LxSS (body : str) (ss : list stmt) : Prop :=
+Definition LxSS (q : list N -> list N) (f : stmt -> list wop) (b : str) (lv : Z) (g0 g body : str) (ss : list stmt) : Prop :=
   forall K gs l, trv gs -> l_rest l = gs ++ rta body K ->
     exists ss' ts l', lexes l ts l' /\ l_rest l' = K /\
       (forall nx R, m_stmts m_stmt ss' nx (ts ++ R) = Some R) /\ map shape_stmt ss' = map shape_stmt ss /\
-      XSS ss' ss (tcm gs).
+      XSS ss' ss (tcm gs) /\
+      EF q (sep_map [WNewline] f ss') (tcm gs) b lv g0 g body (ST (q [LF]) lv).
 
-Lemma LxSS_gap g body ss X K l : LxSS body ss -> wgap g -> sbody body ->
+Lemma LxSS_gap {q f b lv g0} g body ss X K l : LxSS q f b lv g0 g body ss -> wgap g -> sbody body ->
   l_rest l = rta (g ++ body ++ X) K ->
   exists ss' ts l', lexes l ts l' /\ l_rest l' = rta X K /\
     (forall nx R, m_stmts m_stmt ss' nx (ts ++ R) = Some R) /\ map shape_stmt ss' = map shape_stmt ss /\
-    XSS ss' ss (tcm g).
+    XSS ss' ss (tcm g) /\
+    EF q (sep_map [WNewline] f ss') (tcm g) b lv g0 g body (ST (q [LF]) lv).
 Proof.
   intros Lx Gg [[[S1 S2] _] _] Hl.
   destruct (gap_split_c g body X K _ Gg eq_refl S1 S2) as (g' & E & T' & _ & _ & _ & _ & C').
@@ -2333,37 +2780,42 @@ Proof. intros [_ H]. destruct a; [cbn in H; congruence|reflexivity]. Qed.
 Lemma bnd_stmts_cons s ss : bnd_stmts (s :: ss) = trivia_of (first_tok_stmt s) ++ bnd_stmt s ++ bnd_stmts ss.
 Proof. reflexivity. Qed.
 
-Lemma PSS_sep (f : stmt -> list wop) ss : forall s, Forall (fun x => PSo (f x) x) (s :: ss) ->
-  forall b pd lv mp, 0 <= lv -> pend_ok pd -> exists g body,
+Lemma PSS_sep (q : list N -> list N) (f : stmt -> list wop) ss :
+  (forall x B pd lv mp, prun (ps B pd lv mp) (f x) = prun (ps B (q pd) lv mp) (write_stmt x)) ->
+  forall s, Forall (fun x => PSo q (f x) x) (s :: ss) ->
+  forall b pd lv mp, 0 <= lv -> pend_ok pd -> exists g0 g body,
     prun (ps b pd lv mp) (sep_map [WNewline] f (s :: ss)) = ps (b ++ g ++ body) [] lv mp /\
-    wgap g /\ sbody body /\ LxSS body (s :: ss) /\
-    exists t, first_tok_stmt s = Some t /\ GL pd g (t_comments t).
+    wgap g /\ sbody body /\ LxSS q f b lv g0 g body (s :: ss) /\
+    (exists t, first_tok_stmt s = Some t /\ GL pd g (t_comments t)) /\
+    (ST (q pd) lv -> G (q pd) lv (tcm g) = g0).
 Proof.
-  induction ss as [|y ss IH]; intros s F b pd lv mp Hlv Hpd.
-  - inversion F as [|? ? Js _]; subst. destruct (Js b pd lv mp Hlv Hpd) as (g & body & W & Gg & Hs & Lx & Fs).
-    exists g, body. split; [rewrite sep_map_one; exact W|]. split; [exact Gg|]. split; [exact Hs|].
-    split; [|exact Fs]. destruct Fs as (tf & Ftf & _).
-    intros K gs l Tg Hl. destruct (Lx K gs l Tg Hl) as (s' & ts & l' & L & _ & R & M & S & X1 & X2).
-    exists [s'], ts, l'. split; [exact L|]. split; [exact R|]. split; [|split].
+  intro Hf. induction ss as [|y ss IH]; intros s F b pd lv mp Hlv Hpd.
+  - inversion F as [|? ? Js _]; subst. destruct (Js b pd lv mp Hlv Hpd) as (g0 & g & body & W & Gg & Hs & Lx & Fs & Gf).
+    exists g0, g, body. split; [rewrite sep_map_one; exact W|]. split; [exact Gg|]. split; [exact Hs|].
+    split; [|split; [exact Fs|exact Gf]]. destruct Fs as (tf & Ftf & _).
+    intros K gs l Tg Hl. destruct (Lx K gs l Tg Hl) as (s' & ts & l' & L & _ & R & M & S & X1 & X2 & X3).
+    exists [s'], ts, l'. split; [exact L|]. split; [exact R|]. split; [|split; [|split]].
     + intros nx R0. cbn [m_stmts]. rewrite M. reflexivity.
     + cbn [map]. rewrite S. reflexivity.
     + exists (bnd_stmt s' ++ []). rewrite !bnd_stmts_cons, X1, Ftf. cbn [trivia_of app tl]. split; [reflexivity|].
       cbn [bnd_stmts]. rewrite !app_nil_r. exact X2.
-  - inversion F as [|? ? Js F']; subst. destruct (Js b pd lv mp Hlv Hpd) as (g & body & W & Gg & Hs & Lx & Fs).
-    destruct (IH y F' (b ++ g ++ body) [LF] lv mp Hlv pend_ok_lf) as (g2 & body2 & W2 & Gg2 & Hs2 & Lx2 & ty & Fty & Gy).
-    exists g, (body ++ g2 ++ body2). split.
+    + destruct (WX_entry _ _ _ _ _ _ _ X3) as (rest & E1 & E2). exists rest. split; [|intros _; exact E2].
+      intros B pd2 mp2. rewrite sep_map_one, Hf. apply E1.
+  - inversion F as [|? ? Js F']; subst. destruct (Js b pd lv mp Hlv Hpd) as (g0 & g & body & W & Gg & Hs & Lx & Fs & Gf).
+    destruct (IH y F' (b ++ g ++ body) [LF] lv mp Hlv pend_ok_lf) as (g02 & g2 & body2 & W2 & Gg2 & Hs2 & Lx2 & (ty & Fty & Gy) & Gf2).
+    exists g0, g, (body ++ g2 ++ body2). split.
     { rewrite sep_map_cons2, !prun_app, W. psimp. rewrite W2. f_equal. rewrite <- !app_assoc. reflexivity. }
     split; [exact Gg|].
     split.
     { destruct Hs as [[Hs Hn] Se]. split; [rewrite (sst_hd_app _ _ Hs); split; [exact Hs|exact Hn]|].
       rewrite app_assoc. apply send_app; [exact (sbody_ne _ Hs2)|apply Hs2]. }
-    split; [|exact Fs]. destruct Fs as (tf & Ftf & _).
+    split; [|split; [exact Fs|exact Gf]]. destruct Fs as (tf & Ftf & _).
     intros K gs l Tg Hl. rewrite rta_app in Hl.
-    destruct (Lx _ gs l Tg Hl) as (s' & ts & l1 & L1 & _ & R1 & M1 & S1 & X1 & X2).
+    destruct (Lx _ gs l Tg Hl) as (s' & ts & l1 & L1 & _ & R1 & M1 & S1 & X1 & X2 & X3).
     rewrite <- (app_nil_r body2) in R1.
-    destruct (LxSS_gap g2 body2 (y :: ss) [] K l1 Lx2 Gg2 Hs2 R1) as (ss2 & ts2 & l2 & L2 & R2 & M2 & S2 & rest2 & B2 & N2).
+    destruct (LxSS_gap g2 body2 (y :: ss) [] K l1 Lx2 Gg2 Hs2 R1) as (ss2 & ts2 & l2 & L2 & R2 & M2 & S2 & (rest2 & B2 & N2) & (rs2 & E21 & E22)).
     exists (s' :: ss2), (ts ++ ts2), l2.
-    split; [eapply lexes_app; eassumption|]. split; [exact R2|]. split; [|split].
+    split; [eapply lexes_app; eassumption|]. split; [exact R2|]. split; [|split; [|split]].
     + intros nx R0. cbn [m_stmts]. rewrite <- app_assoc, M1. apply M2.
     + cbn [map]. rewrite S1. f_equal. exact S2.
     + exists (bnd_stmt s' ++ tcm g2 :: rest2). rewrite (bnd_stmts_cons s'), X1, B2. split; [reflexivity|].
@@ -2371,18 +2823,27 @@ Proof.
       rewrite (bnd_stmts_cons y), Fty. cbn [trivia_of app]. rewrite !nb_app, !nb_cons, X2.
       rewrite (own_GL _ _ _ Gy lfs_lf). f_equal. f_equal.
       rewrite N2, (bnd_stmts_cons y), Fty. reflexivity.
+    + destruct (WX_entry _ _ _ _ _ _ _ X3) as (rest & E1 & E2).
+      destruct ss2 as [|y' ss2']; [discriminate S2|].
+      exists (rest ++ [WNewline] ++ sep_map [WNewline] f (y' :: ss2')). split.
+      * intros B pd2 mp2. rewrite sep_map_cons2, !(PrettyWr.prun_app indent), Hf, E1. reflexivity.
+      * intros St mp2. rewrite !(PrettyWr.prun_app indent), E2. rewrite prun_cons_ps, pt_newline, prun_nil.
+        rewrite E21, (Gf2 St). rewrite (E22 St). pfeq.
 Qed.
 
-Lemma PSo_indent s : PS s -> PSo (WIndent :: write_stmt s ++ []) s.
+Definition qtab (pd : list N) : list N := add_pend pd TAB.
+Definition qid (pd : list N) : list N := pd.
+
+Lemma PSo_indent s : PS s -> PSo qtab (WIndent :: write_stmt s ++ []) s.
 Proof.
   intros J b pd lv mp Hlv Hpd.
-  destruct (J b (add_pend pd TAB) lv mp Hlv (pend_ok_add pd TAB Hpd ltac:(auto))) as (g & body & W & Gg & Hs & Lx & t & Ft & Gt).
-  exists g, body. split; [rewrite app_nil_r, prun_cons_ps, pt_indent; exact W|].
-  split; [exact Gg|]. split; [exact Hs|]. split; [exact Lx|]. exists t. split; [exact Ft|].
+  destruct (J b (add_pend pd TAB) lv mp Hlv (pend_ok_add pd TAB Hpd ltac:(auto))) as (g0 & g & body & W & Gg & Hs & Lx & (t & Ft & Gt) & Gf).
+  exists g0, g, body. split; [rewrite app_nil_r, prun_cons_ps, pt_indent; exact W|].
+  split; [exact Gg|]. split; [exact Hs|]. split; [exact Lx|]. split; [|exact Gf]. exists t. split; [exact Ft|].
   unfold GL in *. rewrite lfs_add_tab in Gt. exact Gt.
 Qed.
 
-Lemma PSo_plain s : PS s -> PSo (write_stmt s ++ []) s.
+Lemma PSo_plain s : PS s -> PSo qid (write_stmt s ++ []) s.
 Proof. intros J. unfold PSo. rewrite app_nil_r. exact J. Qed.
 
 (* ---------- blocks ---------- *)
@@ -2399,7 +2860,7 @@ Proof.
   assert (Gg0 : wgap g0) by (apply G_gap; assumption).
   assert (Ggb : wgap gb) by (apply G_gap; [exact indent_blank|exact pend_ok_lftab|exact Hc2]).
   destruct ss as [|s ss].
-  - exists g0, (123%N :: gb ++ [125%N]). split.
+  - exists g0, g0, (123%N :: gb ++ [125%N]). split.
     { cbn [write_stmt sep_map app]. psimp. fold g0. cbn [app]. rewrite prun_block_close by exact Hlv. fold gb.
       rewrite prun_nil. f_equal. rewrite <- !app_assoc. reflexivity. }
     split; [exact Gg0|].
@@ -2419,13 +2880,20 @@ Proof.
       change (T_RBRACE =? T_RBRACE) with true. cbn [negb orb m_stmts].
       rewrite eat_tok_refl. apply eat_tok_refl.
     + cbn [shape_stmt tmap_stmt map]. rewrite (norm_eq t1 lb), (norm_eq t2 rb) by congruence. reflexivity.
-    + apply (XS_intro _ _ t1); [reflexivity|exact C1|]. rewrite !bnd_block. cbn [bnd_stmts app nb map].
-      rewrite C2. unfold gb. rewrite (own_GL _ _ _ (GL_G [LF; TAB] lv _ pend_ok_lftab Hc2) lfs_lftab). reflexivity.
-  - assert (F : Forall (fun x => PSo ((fun stmt => WIndent :: write_stmt stmt ++ []) x) x) (s :: ss)).
+    + apply (XS_intro _ _ t1); [reflexivity|exact C1| |].
+      { rewrite !bnd_block. cbn [bnd_stmts app nb map].
+        rewrite C2. unfold gb. rewrite (own_GL _ _ _ (GL_G [LF; TAB] lv _ pend_ok_lftab Hc2) lfs_lftab). reflexivity. }
+      rewrite <- C1. eapply WX_lead; [reflexivity|apply FF_mapping|]. intro mp2.
+      rewrite !(PrettyWr.prun_cons indent), pt_mapping, fl_nil, app_nil_r, pt_rune, fl_nil, pt_newline, pt_inc. cbn [app sep_map].
+      rewrite prun_block_close by exact Hlv. rewrite prun_nil, C2. unfold gb.
+      rewrite (GF_G [LF; TAB] lv _ pend_ok_lftab Hc2 (ST_lftab lv)). pfeq.
+  - assert (F : Forall (fun x => PSo qtab ((fun stmt => WIndent :: write_stmt stmt ++ []) x) x) (s :: ss)).
     { apply Forall_forall. intros x Hx. apply PSo_indent. exact (proj1 (Forall_forall _ _) Js x Hx). }
-    destruct (PSS_sep _ ss s F ((b ++ g0) ++ [123%N]) [LF] (lv + 1) mp ltac:(lia) pend_ok_lf)
-      as (g2 & body2 & W2 & Gg2 & Hs2 & Lx2 & tf & Ftf & Gf).
-    exists g0, (123%N :: (g2 ++ body2) ++ gb ++ [125%N]). split.
+    assert (Hf : forall x B pd0 lv0 mp0, prun (ps B pd0 lv0 mp0) (WIndent :: write_stmt x ++ []) = prun (ps B (qtab pd0) lv0 mp0) (write_stmt x)).
+    { intros x B pd0 lv0 mp0. rewrite app_nil_r, prun_cons_ps, pt_indent. reflexivity. }
+    destruct (PSS_sep qtab _ ss Hf s F ((b ++ g0) ++ [123%N]) [LF] (lv + 1) mp ltac:(lia) pend_ok_lf)
+      as (g02 & g2 & body2 & W2 & Gg2 & Hs2 & Lx2 & (tf & Ftf & Gf) & Gf2).
+    exists g0, g0, (123%N :: (g2 ++ body2) ++ gb ++ [125%N]). split.
     { cbn [write_stmt]. psimp. fold g0. cbn [app]. rewrite W2. rewrite prun_block_close by exact Hlv. fold gb.
       rewrite prun_nil. f_equal. rewrite <- !app_assoc. reflexivity. }
     split; [exact Gg0|].
@@ -2438,7 +2906,7 @@ Proof.
     destruct (P_punct0_c T_LBRACE [123%N] gs _ K l type_text_lbrace ltac:(pfree) Tg Hl)
       as (t1 & l1 & L1 & T1 & I1 & _ & R1 & C1).
     rewrite <- app_assoc in R1.
-    destruct (LxSS_gap g2 body2 (s :: ss) (gb ++ [125%N]) K l1 Lx2 Gg2 Hs2 R1) as (ss' & ts & l2 & L2 & R2 & M & S & rest' & B' & N').
+    destruct (LxSS_gap g2 body2 (s :: ss) (gb ++ [125%N]) K l1 Lx2 Gg2 Hs2 R1) as (ss' & ts & l2 & L2 & R2 & M & S & (rest' & B' & N') & (rs & E1 & E2)).
     rewrite <- (app_nil_r [125%N]) in R2.
     destruct (P_punct_c T_RBRACE [125%N] gb [] K l2 type_text_rbrace ltac:(pfree) Ggb R2)
       as (t2 & l3 & L3 & T2 & I2 & _ & R3 & C2).
@@ -2450,25 +2918,36 @@ Proof.
       rewrite eat_tok_refl, <- app_assoc, M. cbn [app]. apply eat_tok_refl.
     + cbn [shape_stmt tmap_stmt]. change (tmap_stmt norm_tok) with shape_stmt. rewrite S.
       rewrite (norm_eq t1 lb), (norm_eq t2 rb) by congruence. reflexivity.
-    + apply (XS_intro _ _ t1); [reflexivity|exact C1|]. rewrite !bnd_block, B', !nb_app, nb_cons, N'.
-      rewrite (bnd_stmts_cons s), Ftf. cbn [trivia_of app tl nb map].
-      rewrite (own_GL _ _ _ Gf lfs_lf), C2. unfold gb.
-      rewrite (own_GL _ _ _ (GL_G [LF; TAB] lv _ pend_ok_lftab Hc2) lfs_lftab). reflexivity.
+    + apply (XS_intro _ _ t1); [reflexivity|exact C1| |].
+      { rewrite !bnd_block, B', !nb_app, nb_cons, N'.
+        rewrite (bnd_stmts_cons s), Ftf. cbn [trivia_of app tl nb map].
+        rewrite (own_GL _ _ _ Gf lfs_lf), C2. unfold gb.
+        rewrite (own_GL _ _ _ (GL_G [LF; TAB] lv _ pend_ok_lftab Hc2) lfs_lftab). reflexivity. }
+      rewrite <- C1. eapply WX_lead; [reflexivity|apply FF_mapping|]. intro mp2.
+      rewrite !(PrettyWr.prun_cons indent), pt_mapping, fl_nil, app_nil_r, pt_rune, fl_nil, pt_newline, pt_inc. cbn [app].
+      rewrite (PrettyWr.prun_app indent), E1.
+      assert (St : ST (qtab [LF]) (lv + 1)) by apply ST_lftab.
+      rewrite (Gf2 St), (E2 St).
+      rewrite prun_block_close by exact Hlv. rewrite prun_nil, C2. unfold gb.
+      rewrite (GF_G [LF; TAB] lv _ pend_ok_lftab Hc2 (ST_lftab lv)). pfeq.
 Qed.
 
 (* ---------- parameters and function tails ---------- *)
 
 Definition IOK (i : ident) : Prop := ident_lexical i = true /\ NLF (t_comments (id_tok i)).
 
-Definition LxPar (body : str) (ps0 : list ident) : Prop :=
+Definition seppa (l : list ident) : list wop := sep_map [WRune 44%N; WSpace] (fun p => write_ident p ++ []) l.
+
+Definition LxPar (b : str) (pd : list N) (lv : Z) (body : str) (ps0 : list ident) : Prop :=
   forall K, is_ident_char (hd 0%N K) = false -> forall l, l_rest l = rta body K ->
     exists ps' ts l', lexes l ts l' /\ l_rest l' = K /\
       (forall R, m_params ps' (ts ++ R) = Some R) /\
-      map (tmap_ident norm_tok) ps' = map (tmap_ident norm_tok) ps0.
+      map (tmap_ident norm_tok) ps' = map (tmap_ident norm_tok) ps0 /\
+      (ST pd lv -> forall mp2, prun (ps b pd lv mp2) (seppa ps') = ps (b ++ body) (match ps0 with [] => pd | _ => [] end) lv mp2).
 
 Definition PPar (ops : list wop) (ps0 : list ident) : Prop :=
   forall b pd lv mp, 0 <= lv -> pend_ok pd -> exists body,
-    prun (ps b pd lv mp) ops = ps (b ++ body) (match ps0 with [] => pd | _ => [] end) lv mp /\ LxPar body ps0.
+    prun (ps b pd lv mp) ops = ps (b ++ body) (match ps0 with [] => pd | _ => [] end) lv mp /\ LxPar b pd lv body ps0.
 
 Lemma nic_comma X K : is_ident_char (hd 0%N (rta (44%N :: X) K)) = false.
 Proof. rewrite rta_cons_nb by discriminate. reflexivity. Qed.
@@ -2478,32 +2957,42 @@ Lemma PPar_sep ps0 : Forall IOK ps0 ->
 Proof.
   induction 1 as [|x ps0 [Hx Hcx] Hps IH]; intros b pd lv mp Hlv Hpd.
   - exists []. split; [rewrite app_nil_r; reflexivity|].
-    intros K HK l Hl. exists [], [], l. repeat split; try constructor. exact Hl.
+    intros K HK l Hl. exists [], [], l. repeat split; try constructor; [exact Hl|].
+    intros _ mp2. unfold seppa. cbn [sep_map]. rewrite prun_nil, app_nil_r. reflexivity.
   - set (gx := G pd lv (t_comments (id_tok x))).
     assert (Ggx : wgap gx) by (apply G_gap; assumption).
     destruct ps0 as [|y ps'].
     + exists (gx ++ id_value x). split.
       { rewrite sep_map_one. unfold write_ident. psimp. fold gx. cbn [app]. rewrite <- !app_assoc. reflexivity. }
       intros K HK l Hl. rewrite <- (app_nil_r (id_value x)) in Hl.
-      destruct (P_ident_step x gx [] K l Hx Ggx HK Hl) as (t & l' & L & Ty & Li & R & M & S).
-      exists [mkident t (id_value x)], [t], l'. split; [exact L|]. split; [exact R|]. split.
+      destruct (P_ident_step x gx [] K l Hx Ggx HK Hl) as (t & l' & L & Ty & Li & R & M & S & Cm).
+      exists [mkident t (id_value x)], [t], l'. split; [exact L|]. split; [exact R|]. split; [|split].
       * intro R0. cbn [m_params app]. apply M.
       * cbn [map]. rewrite S. reflexivity.
+      * intros St mp2. unfold seppa. rewrite sep_map_one. unfold write_ident. cbn [id_tok id_value app].
+        rewrite prun_lead_named, Cm. unfold gx. rewrite (GF_G pd lv _ Hpd Hcx St). fold gx.
+        rewrite prun_cons_ps, pt_string, fl_nil, prun_nil. pfeq.
     + destruct (IH (((b ++ gx) ++ id_value x) ++ [44%N]) [32%N] lv mp Hlv pend_ok_sp) as (body2 & W2 & Lx2).
       exists (gx ++ id_value x ++ 44%N :: body2). split.
       { rewrite sep_map_cons2. unfold write_ident at 1. psimp. fold gx. cbn [app]. rewrite W2. f_equal.
         rewrite <- !app_assoc. reflexivity. }
       intros K HK l Hl.
-      destruct (P_ident_step x gx (44%N :: body2) K l Hx Ggx (nic_comma _ _) Hl) as (t & l1 & L1 & Ty & Li & R1 & M1 & S1).
+      destruct (P_ident_step x gx (44%N :: body2) K l Hx Ggx (nic_comma _ _) Hl) as (t & l1 & L1 & Ty & Li & R1 & M1 & S1 & Cm).
       destruct (P_comma [] body2 K l1 wgap_nil R1) as (tc & l2 & L2 & Tc & R2).
-      destruct (Lx2 K HK l2 R2) as (ps2 & ts2 & l3 & L3 & R3 & M3 & S3).
+      destruct (Lx2 K HK l2 R2) as (ps2 & ts2 & l3 & L3 & R3 & M3 & S3 & W3).
       exists (mkident t (id_value x) :: ps2), ([t] ++ [tc] ++ ts2), l3.
       split; [eapply lexes_app; [exact L1|eapply lexes_app; eassumption]|]. split; [exact R3|].
-      split.
+      split; [|split].
       * intro R. destruct ps2 as [|p2 ps2']; [discriminate S3|].
         cbn [m_params app]. rewrite M1. cbn [eat]. rewrite Tc.
         change (T_COMMA =? T_COMMA) with true. cbn iota. apply M3.
       * cbn [map]. rewrite S1. f_equal. exact S3.
+      * intros St mp2. destruct ps2 as [|p2 ps2']; [discriminate S3|].
+        unfold seppa. rewrite sep_map_cons2. unfold write_ident at 1. cbn [id_tok id_value app].
+        rewrite prun_lead_named, Cm. unfold gx. rewrite (GF_G pd lv _ Hpd Hcx St). fold gx.
+        rewrite !(PrettyWr.prun_cons indent), pt_string, fl_nil, pt_rune, fl_nil, pt_space, add_pend_nil.
+        setbuf ((((b ++ gx) ++ id_value x) ++ [44%N])).
+        fold (seppa (p2 :: ps2')). rewrite (W3 (ST_sp lv)). pfeq.
 Qed.
 
 Lemma nic_rparen X K : is_ident_char (hd 0%N (rta (41%N :: X) K)) = false.
@@ -2516,11 +3005,12 @@ Lemma P_ftail params body : Forall IOK params -> PS body -> is_block body = true
       exists ps' body' ts l', lexes l ts l' /\ l_rest l' = K /\
         (forall R, m_ftail ps' body' (ts ++ R) = Some R) /\
         map (tmap_ident norm_tok) ps' = map (tmap_ident norm_tok) params /\
-        shape_stmt body' = shape_stmt body /\ nb (bnd_stmt body') = nb (bnd_stmt body).
+        shape_stmt body' = shape_stmt body /\ nb (bnd_stmt body') = nb (bnd_stmt body) /\
+        forall mp2, prun (ps b [] lv mp2) (ftail_ops ps' body') = ps (b ++ 40%N :: txt) [] lv mp2.
 Proof.
   intros Hp Jb Bl b lv mp Hlv.
   destruct (PPar_sep _ Hp (b ++ [40%N]) [] lv mp Hlv pend_ok_nil) as (tp & Wp & Lp).
-  destruct (Jb (((b ++ [40%N]) ++ tp) ++ [41%N]) [32%N] lv mp Hlv pend_ok_sp) as (gb & tb & Wb & Ggb & Hsb & Lb & _).
+  destruct (Jb (((b ++ [40%N]) ++ tp) ++ [41%N]) [32%N] lv mp Hlv pend_ok_sp) as (g0b & gb & tb & Wb & Ggb & Hsb & Lb & _ & Gfb).
   exists (tp ++ 41%N :: gb ++ tb). split.
   { unfold ftail_ops. psimp. cbn [app]. rewrite Wp.
     assert (E : (match params with [] => @nil N | _ :: _ => [] end) = []) by (destruct params; reflexivity).
@@ -2533,15 +3023,20 @@ Proof.
   destruct (P_punct T_LPAREN [40%N] [] _ K l type_text_lparen ltac:(pfree) wgap_nil Hl)
     as (t1 & l1 & L1 & T1 & _ & _ & R1).
   rewrite rta_app in R1.
-  destruct (Lp _ (nic_rparen _ K) l1 R1) as (ps' & tsp & l2 & L2 & R2 & Mp & Sp).
+  destruct (Lp _ (nic_rparen _ K) l1 R1) as (ps' & tsp & l2 & L2 & R2 & Mp & Sp & Wp').
   change (41%N :: gb ++ tb) with ([] ++ [41%N] ++ gb ++ tb) in R2.
   destruct (P_punct T_RPAREN [41%N] [] _ K l2 type_text_rparen ltac:(pfree) wgap_nil R2)
     as (t2 & l3 & L3 & T2 & _ & _ & R3).
   rewrite <- (app_nil_r tb) in R3.
-  destruct (LxS_gap gb tb body [] K l3 Lb Ggb Hsb R3) as (body' & tsb & l4 & L4 & _ & R4 & Mb & Sb & _ & Xb).
+  destruct (LxS_gap gb tb body [] K l3 Lb Ggb Hsb R3) as (body' & tsb & l4 & L4 & _ & R4 & Mb & Sb & _ & Xb & Wb').
   exists ps', body', ([t1] ++ tsp ++ [t2] ++ tsb), l4.
   split; [eapply lexes_app; [exact L1|eapply lexes_app; [exact L2|eapply lexes_app; eassumption]]|].
-  split; [exact R4|]. split; [|split; [assumption|split; assumption]].
+  split; [exact R4|]. split; [|split; [assumption|split; [assumption|split; [assumption|]]]].
+  2:{ intro mp2. unfold ftail_ops. rewrite prun_cons_ps, pt_rune, fl_nil. cbn [app]. rewrite (PrettyWr.prun_app indent).
+      fold (seppa ps'). rewrite (Wp' (ST_nil lv)).
+      assert (E : (match params with [] => @nil N | _ :: _ => [] end) = []) by (destruct params; reflexivity).
+      rewrite E. rewrite !(PrettyWr.prun_cons indent), pt_rune, fl_nil, pt_space, add_pend_nil, app_nil_r. cbn [app].
+      rewrite (WX_run _ _ _ _ _ _ _ Wb' [32%N] mp2 (Gfb (ST_sp lv))). pfeq. }
   intro R. unfold m_ftail. cbn [app eat]. rewrite T1. change (T_LPAREN =? T_LPAREN) with true. cbn iota.
   rewrite <- !app_assoc, Mp. cbn [app eat]. rewrite T2. change (T_RPAREN =? T_RPAREN) with true. cbn iota.
   pose proof (is_block_shape _ _ Sb) as Bl'. rewrite Bl in Bl'.
@@ -2561,7 +3056,7 @@ Proof.
   assert (Ggn : wgap (32%N :: gn)).
   { apply wgap_sp_app. apply G_gap; [exact indent_blank|exact pend_ok_nil|exact Hcn]. }
   destruct (P_ftail params body Hp Jb Bl ((((b ++ g0) ++ kw_function ++ [32%N]) ++ gn) ++ id_value name) lv mp Hlv) as (txt & W & Se & Lx).
-  exists g0, (kw_function ++ (32%N :: gn) ++ id_value name ++ 40%N :: txt). split.
+  exists g0, g0, (kw_function ++ (32%N :: gn) ++ id_value name ++ 40%N :: txt). split.
   { cbn [write_stmt]. fold (ftail_ops params body). unfold write_ident. psimp. fold g0. fold gn. cbn [app].
     change [102%N; 117%N; 110%N; 99%N; 116%N; 105%N; 111%N; 110%N; 32%N] with (kw_function ++ [32%N]).
     rewrite W. f_equal. rewrite <- !app_assoc. reflexivity. }
@@ -2573,8 +3068,8 @@ Proof.
               ltac:(discriminate) ltac:(discriminate)) as (t1 & l1 & L1 & Ty1 & Li1 & _ & R1 & C1); [|exact Tg|exact Hl|].
   { apply (nic_gap (32%N :: gn) (id_value name) _ K _ Ggn eq_refl (letter_sst _ HL)). discriminate. }
   destruct (P_ident_step name (32%N :: gn) (40%N :: txt) K l1 Hn Ggn (nic_lparen _ _) R1)
-    as (t2 & l2 & L2 & Ty2 & Li2 & R2 & M2 & S2).
-  destruct (Lx K l2 R2) as (ps' & body' & ts & l3 & L3 & R3 & M3 & Sp & Sb & Xb).
+    as (t2 & l2 & L2 & Ty2 & Li2 & R2 & M2 & S2 & Cm2).
+  destruct (Lx K l2 R2) as (ps' & body' & ts & l3 & L3 & R3 & M3 & Sp & Sb & Xb & Wft).
   exists (SFunc t1 (mkident t2 (id_value name)) ps' body'), ([t1] ++ [t2] ++ ts), l3.
   split; [eapply lexes_app; [exact L1|eapply lexes_app; eassumption]|].
   split; [discriminate|]. split; [exact R3|]. split; [|split].
@@ -2582,7 +3077,15 @@ Proof.
     rewrite eat_tok_refl, M2. apply (M3 R).
   - cbn [shape_stmt tmap_stmt]. change (tmap_stmt norm_tok) with shape_stmt.
     rewrite S2, Sp, Sb, (norm_eq t1 t) by congruence. reflexivity.
-  - apply (XS_intro _ _ t1); [reflexivity|exact C1|rewrite !bnd_sfunc; exact Xb].
+  - apply (XS_intro _ _ t1); [reflexivity|exact C1|rewrite !bnd_sfunc; exact Xb|].
+    rewrite <- C1. cbn [write_stmt]. fold (ftail_ops ps' body'). unfold write_ident. cbn [id_tok id_value].
+    eapply WX_lead; [reflexivity|apply FF_mapping|]. intro mp2.
+    rewrite !(PrettyWr.prun_cons indent), pt_mapping, fl_nil, app_nil_r, pt_string, fl_nil. cbn [app].
+    rewrite prun_lead_named, Cm2, tcm_sp. unfold gn. rewrite (GF_G [] lv _ pend_ok_nil Hcn (ST_nil lv)). fold gn.
+    rewrite prun_cons_ps, pt_string, fl_nil.
+    change [102%N; 117%N; 110%N; 99%N; 116%N; 105%N; 111%N; 110%N; 32%N] with (kw_function ++ [32%N]).
+    setbuf ((((b ++ g0) ++ kw_function ++ [32%N]) ++ gn) ++ id_value name).
+    rewrite Wft. pfeq.
 Qed.
 
 Lemma P_func t name params body : t_type t = T_FUNCTION -> t_lit t = kw_function -> NLF (t_comments t) ->
@@ -2606,14 +3109,14 @@ Proof.
       rewrite W. f_equal. rewrite <- !app_assoc. reflexivity. }
     split; [apply G_gap; assumption|].
     split; [intros _; apply nofuse_other; discriminate|].
-    split; [split; [intros H1 H2; apply G_nolf; assumption|apply GL_G; assumption]|]. split; [reflexivity|].
+    split; [split; [intros H1 H2; apply G_nolf; assumption|split; [apply GL_G; assumption|apply GF_G; assumption]]|]. split; [reflexivity|].
     intros K _ gs l Tg Hl.
     destruct (P_word0_c T_FUNCTION kw_function gs ((32%N :: gn) ++ id_value n ++ 40%N :: txt) K l relex_function eq_refl
                 ltac:(discriminate) ltac:(discriminate)) as (t1 & l1 & L1 & Ty1 & Li1 & Nl1 & R1 & C1); [|exact Tg|exact Hl|].
     { apply (nic_gap (32%N :: gn) (id_value n) _ K _ Ggn eq_refl (letter_sst _ HL)). discriminate. }
     destruct (P_ident_step n (32%N :: gn) (40%N :: txt) K l1 Hn Ggn (nic_lparen _ _) R1)
-      as (t2 & l2 & L2 & Ty2 & Li2 & R2 & M2 & S2).
-    destruct (Lx K l2 R2) as (ps' & body' & ts & l3 & L3 & R3 & M3 & Sp & Sb & Xb).
+      as (t2 & l2 & L2 & Ty2 & Li2 & R2 & M2 & S2 & Cm2).
+    destruct (Lx K l2 R2) as (ps' & body' & ts & l3 & L3 & R3 & M3 & Sp & Sb & Xb & Wft).
     exists (EFunc t1 (Some (mkident t2 (id_value n))) ps' body'), ([t1] ++ [t2] ++ ts), l3.
     split; [eapply lexes_app; [exact L1|eapply lexes_app; eassumption]|].
     split; [exact R3|]. split; [|split].
@@ -2622,6 +3125,14 @@ Proof.
     + unfold shape_expr. cbn [tmap_expr option_map]. change (tmap_stmt norm_tok) with shape_stmt.
       rewrite S2, Sp, Sb, (norm_eq t1 t) by congruence. reflexivity.
     + exists t1, ([t2] ++ ts). repeat split; try assumption.
+      rewrite <- C1. cbn [write_expr]. fold (ftail_ops ps' body'). unfold write_ident. cbn [id_tok id_value app].
+      eapply WX_lead; [reflexivity|apply FF_mapping|]. intro mp2.
+      do 3 rewrite (PrettyWr.prun_cons indent). rewrite pt_mapping, fl_nil, app_nil_r, pt_string, fl_nil, pt_rune, fl_nil. cbn [app].
+      rewrite prun_lead_named, Cm2, tcm_sp. unfold gn. rewrite (GF_G [] lv _ pend_ok_nil Hcn (ST_nil lv)). fold gn.
+      rewrite prun_cons_ps, pt_string, fl_nil.
+      change [102%N; 117%N; 110%N; 99%N; 116%N; 105%N; 111%N; 110%N] with kw_function.
+      setbuf (((((b ++ g0) ++ kw_function) ++ [32%N]) ++ gn) ++ id_value n).
+      rewrite Wft. pfeq.
   - destruct (P_ftail params body Hp Jb Bl ((b ++ g0) ++ kw_function) lv mp Hlv) as (txt & W & _ & Lx).
     exists g0, (kw_function ++ 40%N :: txt). split.
     { cbn [write_expr]. fold (ftail_ops params body). cbn [app]. psimp. fold g0. cbn [app].
@@ -2629,12 +3140,12 @@ Proof.
       rewrite W. f_equal. rewrite <- !app_assoc. reflexivity. }
     split; [apply G_gap; assumption|].
     split; [intros _; apply nofuse_other; discriminate|].
-    split; [split; [intros H1 H2; apply G_nolf; assumption|apply GL_G; assumption]|]. split; [reflexivity|].
+    split; [split; [intros H1 H2; apply G_nolf; assumption|split; [apply GL_G; assumption|apply GF_G; assumption]]|]. split; [reflexivity|].
     intros K _ gs l Tg Hl.
     destruct (P_word0_c T_FUNCTION kw_function gs (40%N :: txt) K l relex_function eq_refl
                 ltac:(discriminate) ltac:(discriminate) (nic_lparen _ _) Tg Hl)
       as (t1 & l1 & L1 & Ty1 & Li1 & Nl1 & R1 & C1).
-    destruct (Lx K l1 R1) as (ps' & body' & ts & l3 & L3 & R3 & M3 & Sp & Sb & Xb).
+    destruct (Lx K l1 R1) as (ps' & body' & ts & l3 & L3 & R3 & M3 & Sp & Sb & Xb & Wft).
     exists (EFunc t1 None ps' body'), ([t1] ++ ts), l3.
     split; [eapply lexes_app; eassumption|].
     split; [exact R3|]. split; [|split].
@@ -2643,6 +3154,12 @@ Proof.
     + unfold shape_expr. cbn [tmap_expr]. change (tmap_stmt norm_tok) with shape_stmt.
       rewrite Sp, Sb, (norm_eq t1 t) by congruence. reflexivity.
     + exists t1, ts. repeat split; try assumption.
+      rewrite <- C1. cbn [write_expr]. fold (ftail_ops ps' body'). cbn [app].
+      eapply WX_lead; [reflexivity|apply FF_mapping|]. intro mp2.
+      do 2 rewrite (PrettyWr.prun_cons indent). rewrite pt_mapping, fl_nil, app_nil_r, pt_string, fl_nil.
+      change [102%N; 117%N; 110%N; 99%N; 116%N; 105%N; 111%N; 110%N] with kw_function.
+      setbuf ((b ++ g0) ++ kw_function).
+      rewrite Wft. pfeq.
 Qed.
 
 (* ---------- keyword ( condition ) ---------- *)
@@ -2656,10 +3173,12 @@ Lemma P_kwcond ty kw c lc : relex_word ty kw = true -> is_word_type ty = true ->
       exists t1 tl c' tsc tr l', lexes l ([t1; tl] ++ tsc ++ [tr]) l' /\ l_rest l' = rta X K /\
         t_type t1 = ty /\ t_lit t1 = kw /\ t_type tl = T_LPAREN /\ t_type tr = T_RPAREN /\
         (forall R, m_expr c' (tsc ++ R) = Some R) /\ shape_expr c' = shape_expr c /\
-        t_comments t1 = tcm gs /\ nb (bnd_expr c') = nb (bnd_expr c).
+        t_comments t1 = tcm gs /\ nb (bnd_expr c') = nb (bnd_expr c) /\
+        (forall rest mp2, prun (ps b [] lv mp2) (WString kw :: WSpace :: WRune 40%N :: write_expr c' ++ WRune 41%N :: WSpace :: rest)
+                  = prun (ps (b ++ kw ++ 32%N :: 40%N :: txt ++ [41%N]) [32%N] lv mp2) rest).
 Proof.
   intros H W NI NF (cc0 & Oc & J) b lv mp Hlv.
-  destruct (J ((b ++ kw) ++ [32%N; 40%N]) [] lv mp Hlv pend_ok_nil) as (g & body & Wc & Gg & _ & _ & Hd & Lx).
+  destruct (J ((b ++ kw) ++ [32%N; 40%N]) [] lv mp Hlv pend_ok_nil) as (g & body & Wc & Gg & _ & (_ & _ & Gfc) & Hd & Lx).
   exists (g ++ body). split.
   { intro rest. psimp. cbn [app]. rewrite Wc. psimp. cbn [app].
     f_equal. f_equal. rewrite <- !app_assoc. cbn [app]. rewrite <- ?app_assoc. reflexivity. }
@@ -2678,7 +3197,12 @@ Proof.
     as (tr & l4 & L4 & Tr & _ & _ & R4).
   exists t1, tl, c', tsc, tr, l4.
   split; [exact (lexes_app _ _ _ _ _ (lexes_app _ _ _ _ _ L1 L2) (lexes_app _ _ _ _ _ L3 L4))|].
-  repeat split; try assumption. apply Xc.
+  repeat split; try assumption; [apply Xc|].
+  intros rest mp2. rewrite !(PrettyWr.prun_cons indent), pt_string, fl_nil, pt_space, add_pend_nil, pt_rune, fl_sp. cbn [app].
+  rewrite (PrettyWr.prun_app indent).
+  setbuf ((b ++ kw) ++ [32%N; 40%N]).
+  wx_sub Xc (@nil N) (Gfc (ST_nil lv)).
+  rewrite !(PrettyWr.prun_cons indent), pt_rune, fl_nil, pt_space, add_pend_nil. f_equal. pfeq.
 Qed.
 
 (* ---------- while ---------- *)
@@ -2690,8 +3214,8 @@ Proof.
   set (g0 := G pd lv (t_comments t)).
   destruct (P_kwcond T_WHILE kw_while c lc relex_while eq_refl ltac:(discriminate) ltac:(discriminate) Jc (b ++ g0) lv mp Hlv)
     as (txt & Wc & Lc).
-  destruct (Jb ((b ++ g0) ++ kw_while ++ 32%N :: 40%N :: txt ++ [41%N]) [32%N] lv mp Hlv pend_ok_sp) as (gb & tb & Wb & Ggb & Hsb & Lb & _).
-  exists g0, (kw_while ++ 32%N :: 40%N :: txt ++ 41%N :: gb ++ tb). split.
+  destruct (Jb ((b ++ g0) ++ kw_while ++ 32%N :: 40%N :: txt ++ [41%N]) [32%N] lv mp Hlv pend_ok_sp) as (g0b & gb & tb & Wb & Ggb & Hsb & Lb & _ & Gfb).
+  exists g0, g0, (kw_while ++ 32%N :: 40%N :: txt ++ 41%N :: gb ++ tb). split.
   { cbn [write_stmt]. rewrite prun_lead. fold g0.
     change [119%N; 104%N; 105%N; 108%N; 101%N] with kw_while.
     rewrite Wc, app_nil_r, Wb. f_equal. rewrite <- !app_assoc. cbn [app]. rewrite <- !app_assoc. reflexivity. }
@@ -2701,9 +3225,9 @@ Proof.
                   rewrite !app_assoc; apply send_app; [exact (sbody_ne _ Hsb)|apply Hsb]]|].
   gl_first t.
   intros K gs l Tg Hl.
-  destruct (Lc (gb ++ tb) K gs l Tg Hl) as (t1 & tl & c' & tsc & tr & l1 & L1 & R1 & Ty1 & Li1 & Tl & Tr & Mc & Sc & C1 & Xc).
+  destruct (Lc (gb ++ tb) K gs l Tg Hl) as (t1 & tl & c' & tsc & tr & l1 & L1 & R1 & Ty1 & Li1 & Tl & Tr & Mc & Sc & C1 & Xc & Wc').
   rewrite <- (app_nil_r tb) in R1.
-  destruct (LxS_gap gb tb body [] K l1 Lb Ggb Hsb R1) as (body' & tsb & l2 & L2 & _ & R2 & Mb & Sb & _ & Xb).
+  destruct (LxS_gap gb tb body [] K l1 Lb Ggb Hsb R1) as (body' & tsb & l2 & L2 & _ & R2 & Mb & Sb & _ & Xb & Wb').
   exists (SWhile t1 c' body'), (([t1; tl] ++ tsc ++ [tr]) ++ tsb), l2.
   split; [eapply lexes_app; eassumption|]. split; [discriminate|]. split; [exact R2|]. split; [|split].
   - intros nx R. cbn [m_stmt app]. rewrite Ty1. change (T_WHILE =? T_WHILE) with true. cbn [negb].
@@ -2712,7 +3236,11 @@ Proof.
     apply Mb.
   - cbn [shape_stmt tmap_stmt]. change (tmap_stmt norm_tok) with shape_stmt. change (tmap_expr norm_tok) with shape_expr.
     rewrite Sc, Sb, (norm_eq t1 t) by congruence. reflexivity.
-  - apply (XS_intro _ _ t1); [reflexivity|exact C1|rewrite !bnd_swhile, !nb_app, Xc, Xb; reflexivity].
+  - apply (XS_intro _ _ t1); [reflexivity|exact C1|rewrite !bnd_swhile, !nb_app, Xc, Xb; reflexivity|].
+    rewrite <- C1. cbn [write_stmt]. eapply WX_lead; [reflexivity|apply FF_mapping|]. intro mp2.
+    rewrite (PrettyWr.prun_cons indent), pt_mapping, fl_nil, app_nil_r.
+    change [119%N; 104%N; 105%N; 108%N; 101%N] with kw_while.
+    rewrite Wc', app_nil_r. rewrite (WX_run _ _ _ _ _ _ _ Wb' [32%N] mp2 (Gfb (ST_sp lv))). pfeq.
 Qed.
 
 (* ---------- if [else] ---------- *)
@@ -2724,9 +3252,9 @@ Proof.
   set (g0 := G pd lv (t_comments t)).
   destruct (P_kwcond T_IF kw_if c lc relex_if eq_refl ltac:(discriminate) ltac:(discriminate) Jc (b ++ g0) lv mp Hlv)
     as (txt & Wc & Lc).
-  destruct (Jt ((b ++ g0) ++ kw_if ++ 32%N :: 40%N :: txt ++ [41%N]) [32%N] lv mp Hlv pend_ok_sp) as (gt & tt & Wt & Ggt & Hst & Lt & _).
+  destruct (Jt ((b ++ g0) ++ kw_if ++ 32%N :: 40%N :: txt ++ [41%N]) [32%N] lv mp Hlv pend_ok_sp) as (g0t & gt & tt & Wt & Ggt & Hst & Lt & _ & Gft).
   destruct (is_snil els) eqn:Ee.
-  - exists g0, (kw_if ++ 32%N :: 40%N :: txt ++ 41%N :: gt ++ tt). split.
+  - exists g0, g0, (kw_if ++ 32%N :: 40%N :: txt ++ 41%N :: gt ++ tt). split.
     { cbn [write_stmt]. rewrite Ee. cbn [negb]. rewrite prun_lead. fold g0.
       change [105%N; 102%N] with kw_if.
       rewrite Wc, !app_nil_r, Wt. f_equal. rewrite <- !app_assoc. cbn [app]. rewrite <- !app_assoc. reflexivity. }
@@ -2736,9 +3264,9 @@ Proof.
                     rewrite !app_assoc; apply send_app; [exact (sbody_ne _ Hst)|apply Hst]]|].
     gl_first t.
     intros K gs l Tg Hl.
-    destruct (Lc (gt ++ tt) K gs l Tg Hl) as (t1 & tl & c' & tsc & tr & l1 & L1 & R1 & Ty1 & Li1 & Tl & Tr & Mc & Sc & C1 & Xc).
+    destruct (Lc (gt ++ tt) K gs l Tg Hl) as (t1 & tl & c' & tsc & tr & l1 & L1 & R1 & Ty1 & Li1 & Tl & Tr & Mc & Sc & C1 & Xc & Wc').
     rewrite <- (app_nil_r tt) in R1.
-    destruct (LxS_gap gt tt thn [] K l1 Lt Ggt Hst R1) as (thn' & tst & l2 & L2 & _ & R2 & Mt & St & _ & Xt).
+    destruct (LxS_gap gt tt thn [] K l1 Lt Ggt Hst R1) as (thn' & tst & l2 & L2 & _ & R2 & Mt & St & _ & Xt & Wt').
     exists (SIf t1 c' thn' SNil), (([t1; tl] ++ tsc ++ [tr]) ++ tst), l2.
     split; [eapply lexes_app; eassumption|]. split; [discriminate|]. split; [exact R2|]. split; [|split].
     + intros nx R. cbn [m_stmt app]. rewrite Ty1. change (T_IF =? T_IF) with true. cbn [negb].
@@ -2749,11 +3277,15 @@ Proof.
       cbn [shape_stmt tmap_stmt]. change (tmap_stmt norm_tok) with shape_stmt. change (tmap_expr norm_tok) with shape_expr.
       rewrite Sc, St, (norm_eq t1 t) by congruence. reflexivity.
     + apply is_snil_true in Ee. subst els.
-      apply (XS_intro _ _ t1); [reflexivity|exact C1|rewrite !bnd_sif, !nb_app, Xc, Xt; reflexivity].
+      apply (XS_intro _ _ t1); [reflexivity|exact C1|rewrite !bnd_sif, !nb_app, Xc, Xt; reflexivity|].
+      rewrite <- C1. cbn [write_stmt is_snil negb]. eapply WX_lead; [reflexivity|apply FF_mapping|]. intro mp2.
+      rewrite (PrettyWr.prun_cons indent), pt_mapping, fl_nil, app_nil_r.
+      change [105%N; 102%N] with kw_if.
+      rewrite Wc', !app_nil_r. rewrite (WX_run _ _ _ _ _ _ _ Wt' [32%N] mp2 (Gft (ST_sp lv))). pfeq.
   - destruct (Je eq_refl ((((b ++ g0) ++ kw_if ++ 32%N :: 40%N :: txt ++ [41%N]) ++ gt ++ tt) ++ 32%N :: kw_else ++ [32%N]) [] lv mp Hlv pend_ok_nil)
-      as (ge & te & We & Gge & Hse & Le & _).
+      as (g0e & ge & te & We & Gge & Hse & Le & _ & Gfe).
     assert (Gge' : wgap (32%N :: ge)) by (apply wgap_sp_app; exact Gge).
-    exists g0, (kw_if ++ 32%N :: 40%N :: txt ++ 41%N :: gt ++ tt ++ 32%N :: kw_else ++ (32%N :: ge) ++ te). split.
+    exists g0, g0, (kw_if ++ 32%N :: 40%N :: txt ++ 41%N :: gt ++ tt ++ 32%N :: kw_else ++ (32%N :: ge) ++ te). split.
     { cbn [write_stmt]. rewrite Ee. cbn [negb]. rewrite prun_lead. fold g0.
       change [105%N; 102%N] with kw_if.
       rewrite Wc, !app_nil_r, prun_app, Wt. psimp. cbn [app].
@@ -2767,14 +3299,14 @@ Proof.
     gl_first t.
     intros K gs l Tg Hl.
     destruct (Lc (gt ++ tt ++ 32%N :: kw_else ++ (32%N :: ge) ++ te) K gs l Tg Hl)
-      as (t1 & tl & c' & tsc & tr & l1 & L1 & R1 & Ty1 & Li1 & Tl & Tr & Mc & Sc & C1 & Xc).
-    destruct (LxS_gap gt tt thn _ K l1 Lt Ggt Hst R1) as (thn' & tst & l2 & L2 & _ & R2 & Mt & St & _ & Xt).
+      as (t1 & tl & c' & tsc & tr & l1 & L1 & R1 & Ty1 & Li1 & Tl & Tr & Mc & Sc & C1 & Xc & Wc').
+    destruct (LxS_gap gt tt thn _ K l1 Lt Ggt Hst R1) as (thn' & tst & l2 & L2 & _ & R2 & Mt & St & _ & Xt & Wt').
     change (32%N :: kw_else ++ (32%N :: ge) ++ te) with ([32%N] ++ kw_else ++ (32%N :: ge) ++ te) in R2.
     destruct (P_word T_ELSE kw_else [32%N] ((32%N :: ge) ++ te) K l2 relex_else eq_refl
                 ltac:(discriminate) ltac:(discriminate)) as (t2 & l3 & L3 & Ty2 & Li2 & _ & R3); [|exact wgap_sp|exact R2|].
     { rewrite <- (app_nil_r te). apply (nic_gap (32%N :: ge) te [] K _ Gge' eq_refl (proj1 (proj1 Hse))). discriminate. }
     rewrite <- (app_nil_r te) in R3.
-    destruct (LxS_gap (32%N :: ge) te els [] K l3 Le Gge' Hse R3) as (els' & tse & l4 & L4 & Ne4 & R4 & Me & Se & _ & Xe).
+    destruct (LxS_gap (32%N :: ge) te els [] K l3 Le Gge' Hse R3) as (els' & tse & l4 & L4 & Ne4 & R4 & Me & Se & _ & Xe & We').
     exists (SIf t1 c' thn' els'), (([t1; tl] ++ tsc ++ [tr]) ++ tst ++ [t2] ++ tse), l4.
     split; [eapply lexes_app; [exact L1|eapply lexes_app; [exact L2|eapply lexes_app; eassumption]]|].
     split; [discriminate|]. split; [exact R4|]. split; [|split].
@@ -2785,32 +3317,46 @@ Proof.
       change (T_ELSE =? T_ELSE) with true. cbn iota. apply Me.
     + cbn [shape_stmt tmap_stmt]. change (tmap_stmt norm_tok) with shape_stmt. change (tmap_expr norm_tok) with shape_expr.
       rewrite Sc, St, Se, (norm_eq t1 t) by congruence. reflexivity.
-    + apply (XS_intro _ _ t1); [reflexivity|exact C1|rewrite !bnd_sif, !nb_app, Xc, Xt, Xe; reflexivity].
+    + apply (XS_intro _ _ t1); [reflexivity|exact C1|rewrite !bnd_sif, !nb_app, Xc, Xt, Xe; reflexivity|].
+      rewrite <- C1. cbn [write_stmt]. rewrite (is_snil_shape _ _ Se), Ee. cbn [negb].
+      eapply WX_lead; [reflexivity|apply FF_mapping|]. intro mp2.
+      rewrite (PrettyWr.prun_cons indent), pt_mapping, fl_nil, app_nil_r.
+      change [105%N; 102%N] with kw_if.
+      rewrite Wc', !app_nil_r, (PrettyWr.prun_app indent).
+      rewrite (WX_run _ _ _ _ _ _ _ Wt' [32%N] mp2 (Gft (ST_sp lv))).
+      rewrite prun_cons_ps, pt_string, fl_nil.
+      change [32%N; 101%N; 108%N; 115%N; 101%N; 32%N] with (32%N :: kw_else ++ [32%N]). cbn [app].
+      rewrite tcm_sp in We'.
+      rewrite (WX_run _ _ _ _ _ _ _ We' (@nil N) mp2 (Gfe (ST_nil lv))). pfeq.
 Qed.
 
 (* ---------- for ---------- *)
 
-Definition LxOpt (txt : str) (e : expr) : Prop :=
+Definition LxOpt (b : str) (pd : list N) (lv : Z) (txt : str) (e : expr) : Prop :=
   forall K, kont K -> forall l, l_rest l = rta txt K ->
     exists e' ts l', lexes l ts l' /\ l_rest l' = K /\
       (forall R, (if is_enil e' then Some (ts ++ R) else m_expr e' (ts ++ R)) = Some R) /\
-      shape_expr e' = shape_expr e /\ nb (bnd_expr e') = nb (bnd_expr e).
+      shape_expr e' = shape_expr e /\ nb (bnd_expr e') = nb (bnd_expr e) /\
+      (ST pd lv -> forall mp2, prun (ps b pd lv mp2) (opt_ops e') = ps (b ++ txt) (if is_enil e then pd else []) lv mp2).
 
 Definition POpt (e : expr) : Prop :=
   forall b pd lv mp, 0 <= lv -> pend_ok pd -> exists txt,
-    prun (ps b pd lv mp) (opt_ops e) = ps (b ++ txt) (if is_enil e then pd else []) lv mp /\ LxOpt txt e.
+    prun (ps b pd lv mp) (opt_ops e) = ps (b ++ txt) (if is_enil e then pd else []) lv mp /\ LxOpt b pd lv txt e.
 
 Lemma P_opt e le : (is_enil e = false -> PE e le) -> POpt e.
 Proof.
   intros J b pd lv mp Hlv Hpd. unfold opt_ops. destruct (is_enil e) eqn:Ee.
   - apply is_enil_true in Ee. subst e. exists []. split; [cbn [negb]; rewrite app_nil_r; reflexivity|].
-    intros K _ l Hl. exists ENil, [], l. split; [constructor|]. split; [exact Hl|]. split; [reflexivity|split; reflexivity].
-  - destruct (J eq_refl) as (c & Oc & Je). destruct (Je b pd lv mp Hlv Hpd) as (g & body & W & Gg & _ & _ & Hd & Lx).
+    intros K _ l Hl. exists ENil, [], l. split; [constructor|]. split; [exact Hl|]. split; [reflexivity|split; [reflexivity|split; [reflexivity|]]].
+    intros _ mp2. unfold opt_ops. cbn [is_enil negb]. rewrite prun_nil, app_nil_r. reflexivity.
+  - destruct (J eq_refl) as (c & Oc & Je). destruct (Je b pd lv mp Hlv Hpd) as (g & body & W & Gg & _ & (_ & _ & Gfe) & Hd & Lx).
     exists (g ++ body). split; [cbn [negb]; rewrite app_nil_r; exact W|].
     intros K HK l Hl. rewrite <- (app_nil_r body) in Hl.
     destruct (LxE_gap g body e _ c [] K l Lx Gg Hd Oc HK Hl) as (e' & ts & l' & L & R & M & S & tq & tsq & _ & _ & _ & Xe).
-    exists e', ts, l'. split; [exact L|]. split; [exact R|]. split; [|split; [exact S|apply Xe]].
-    intro R0. rewrite (is_enil_shape _ _ S), Ee. apply M.
+    exists e', ts, l'. split; [exact L|]. split; [exact R|]. split; [|split; [exact S|split; [apply Xe|]]].
+    + intro R0. rewrite (is_enil_shape _ _ S), Ee. apply M.
+    + intros St mp2. unfold opt_ops. rewrite (is_enil_shape _ _ S), Ee. cbn [negb]. rewrite app_nil_r.
+      wx_sub Xe pd (Gfe St). pfeq.
 Qed.
 
 Definition spn (e : expr) : str := if is_enil e then [32%N] else [].
@@ -2831,8 +3377,8 @@ Proof.
   destruct (Ju (((((((b ++ g0) ++ kw_for) ++ [32%N; 40%N]) ++ ti) ++ [59%N]) ++ tc) ++ spn c ++ [59%N]) [32%N] lv mp Hlv pend_ok_sp)
     as (tu & Wu & Lxu).
   destruct (Jb (((((((((b ++ g0) ++ kw_for) ++ [32%N; 40%N]) ++ ti) ++ [59%N]) ++ tc) ++ spn c ++ [59%N]) ++ tu) ++ spn u ++ [41%N])
-              [32%N] lv mp Hlv pend_ok_sp) as (gb & tb & Wb & Ggb & Hsb & Lb & _).
-  exists g0, (kw_for ++ [32%N; 40%N] ++ ti ++ 59%N :: tc ++ spn c ++ 59%N :: tu ++ spn u ++ 41%N :: gb ++ tb). split.
+              [32%N] lv mp Hlv pend_ok_sp) as (g0b & gb & tb & Wb & Ggb & Hsb & Lb & _ & Gfb).
+  exists g0, g0, (kw_for ++ [32%N; 40%N] ++ ti ++ 59%N :: tc ++ spn c ++ 59%N :: tu ++ spn u ++ 41%N :: gb ++ tb). split.
   { cbn [write_stmt]. fold (opt_ops i). fold (opt_ops c). fold (opt_ops u).
     change [102%N; 111%N; 114%N] with kw_for.
     psimp. fold g0. cbn [app]. rewrite Wi.
@@ -2854,22 +3400,22 @@ Proof.
   destruct (P_punct T_LPAREN [40%N] [32%N] _ K l1 type_text_lparen ltac:(pfree) wgap_sp R1)
     as (tl & l2 & L2 & Tl & _ & _ & R2).
   rewrite rta_app in R2.
-  destruct (Lxi _ (kont_semi' _ K) l2 R2) as (i' & tsi & l3 & L3 & R3 & Mi & Si & Xi).
+  destruct (Lxi _ (kont_semi' _ K) l2 R2) as (i' & tsi & l3 & L3 & R3 & Mi & Si & Xi & Wi').
   destruct (P_semi [] _ K l3 wgap_nil R3) as (s1 & l4 & L4 & Ts1 & R4).
   rewrite rta_app in R4.
   assert (K2 : kont (rta (spn c ++ 59%N :: tu ++ spn u ++ 41%N :: gb ++ tb) K)).
   { apply kont_gap_char; [apply spn_gap|reflexivity|discriminate|reflexivity|discriminate]. }
-  destruct (Lxc _ K2 l4 R4) as (c' & tsc & l5 & L5 & R5 & Mc & Sc & Xc).
+  destruct (Lxc _ K2 l4 R4) as (c' & tsc & l5 & L5 & R5 & Mc & Sc & Xc & Wc').
   destruct (P_semi (spn c) _ K l5 (spn_gap c) R5) as (s2 & l6 & L6 & Ts2 & R6).
   rewrite rta_app in R6.
   assert (K3 : kont (rta (spn u ++ 41%N :: gb ++ tb) K)).
   { apply kont_gap_char; [apply spn_gap|reflexivity|discriminate|reflexivity|discriminate]. }
-  destruct (Lxu _ K3 l6 R6) as (u' & tsu & l7 & L7 & R7 & Mu & Su & Xu).
+  destruct (Lxu _ K3 l6 R6) as (u' & tsu & l7 & L7 & R7 & Mu & Su & Xu & Wu').
   change (spn u ++ 41%N :: gb ++ tb) with (spn u ++ [41%N] ++ gb ++ tb) in R7.
   destruct (P_punct T_RPAREN [41%N] (spn u) _ K l7 type_text_rparen ltac:(pfree) (spn_gap u) R7)
     as (tr & l8 & L8 & Tr & _ & _ & R8).
   rewrite <- (app_nil_r tb) in R8.
-  destruct (LxS_gap gb tb body [] K l8 Lb Ggb Hsb R8) as (body' & tsb & l9 & L9 & _ & R9 & Mb & Sb & _ & Xb).
+  destruct (LxS_gap gb tb body [] K l8 Lb Ggb Hsb R8) as (body' & tsb & l9 & L9 & _ & R9 & Mb & Sb & _ & Xb & Wb').
   exists (SFor t1 i' c' u' body'), ([t1] ++ [tl] ++ tsi ++ [s1] ++ tsc ++ [s2] ++ tsu ++ [tr] ++ tsb), l9.
   split.
   { repeat (eapply lexes_app; [eassumption|]). exact L9. }
@@ -2883,7 +3429,22 @@ Proof.
     apply Mb.
   - cbn [shape_stmt tmap_stmt]. change (tmap_stmt norm_tok) with shape_stmt. change (tmap_expr norm_tok) with shape_expr.
     rewrite Si, Sc, Su, Sb, (norm_eq t1 t) by congruence. reflexivity.
-  - apply (XS_intro _ _ t1); [reflexivity|exact C1|rewrite !bnd_sfor, !nb_app, Xi, Xc, Xu, Xb; reflexivity].
+  - apply (XS_intro _ _ t1); [reflexivity|exact C1|rewrite !bnd_sfor, !nb_app, Xi, Xc, Xu, Xb; reflexivity|].
+    rewrite <- C1. cbn [write_stmt]. fold (opt_ops i'). fold (opt_ops c'). fold (opt_ops u').
+    change [102%N; 111%N; 114%N] with kw_for.
+    eapply WX_lead; [reflexivity|apply FF_mapping|]. intro mp2.
+    psimp. cbn [app].
+    setbuf (((b ++ g0) ++ kw_for) ++ [32%N; 40%N]).
+    rewrite (Wi' (ST_nil lv)).
+    assert (E1 : (if is_enil i then @nil N else []) = []) by (destruct (is_enil i); reflexivity).
+    rewrite E1. psimp. cbn [app].
+    setbuf (((((b ++ g0) ++ kw_for) ++ [32%N; 40%N]) ++ ti) ++ [59%N]).
+    rewrite (Wc' (ST_sp lv)). psimp. rewrite fl_spn.
+    setbuf (((((((b ++ g0) ++ kw_for) ++ [32%N; 40%N]) ++ ti) ++ [59%N]) ++ tc) ++ spn c ++ [59%N]).
+    rewrite (Wu' (ST_sp lv)). psimp. rewrite fl_spn. rewrite ?app_nil_r.
+    setbuf (((((((((b ++ g0) ++ kw_for) ++ [32%N; 40%N]) ++ ti) ++ [59%N]) ++ tc) ++ spn c ++ [59%N]) ++ tu) ++ spn u ++ [41%N]).
+    rewrite (WX_run _ _ _ _ _ _ _ Wb' [32%N] mp2 (Gfb (ST_sp lv))).
+    f_equal. repeat (rewrite <- ?app_assoc; cbn [app]). reflexivity.
 Qed.
 
 End TrivJ.
@@ -3528,7 +4089,7 @@ End Main.
 
 
 (* ================================================================== *)
-(* 4. programs: the boundary trivia of the tree parsed back            *)
+(* 4. programs: the tree parsed back - its boundary trivia, and its formatted text *)
 (* ================================================================== *)
 
 Section Final.
@@ -3538,6 +4099,8 @@ Hypothesis indent_blank : blank_str indent.
 Local Notation pc := (PrettyWr.pc indent).
 Local Notation prun := (PrettyWr.prun indent).
 Local Notation PS := (TrivJ.PS indent).
+Local Notation G := (PrettyWr.G indent).
+Local Notation ind := (PrettyWr.ind indent).
 
 Lemma tokenize_eof_only_c Y : trv_end Y ->
   exists teof, tokenize Y = Some [teof] /\ t_type teof = T_EOF /\ t_lit teof = [] /\ t_comments teof = tcm Y.
@@ -3568,10 +4131,84 @@ Proof.
   apply (tcm_dwe_dw_rc indent indent_blank); [rewrite E; discriminate|exact F|exact R].
 Qed.
 
-Theorem boundary_TP : forall p toks m,
+(* ---------- the text level ---------- *)
+
+Lemma ind0 : ind 0 = [].
+Proof. reflexivity. Qed.
+
+Lemma G0_eb cs : eb (G [] 0 cs).
+Proof.
+  unfold PrettyWr.G. destruct cs as [|c cs']; [left; reflexivity|]. right. rewrite ind0.
+  exists (PrettyWr.rc indent (c :: cs') 0). reflexivity.
+Qed.
+
+Lemma ST_lf0 : ST indent (qid [LF]) 0.
+Proof. unfold ST, qid, PrettyWr.G. cbn [lfs flat_map app]. rewrite ind0. reflexivity. Qed.
+
+Lemma dw_G0 cs Z : drop_while is_space_go (G [] 0 cs ++ Z) = drop_while is_space_go (G [] 0 (drop_blank_items cs) ++ Z).
+Proof.
+  unfold PrettyWr.G at 1. destruct cs as [|c cs'] eqn:E; [reflexivity|]. rewrite <- E.
+  assert (Ne : cs <> []) by (rewrite E; discriminate).
+  rewrite <- app_assoc, (dw_rc indent indent_blank cs 0 _ Ne). rewrite ind0.
+  destruct (drop_blank_items cs) as [|d ds] eqn:D.
+  - reflexivity.
+  - unfold PrettyWr.G. rewrite <- app_assoc, (dw_rc indent indent_blank (d :: ds) 0 _ ltac:(discriminate)).
+    rewrite <- D, drop_blank_idem, D, ind0. reflexivity.
+Qed.
+
+Lemma dw_ns x : x <> [] -> is_space_go (last x 0%N) = false -> drop_while is_space_go x <> [].
+Proof.
+  induction x as [|c x IH]; intros Ne H; [congruence|]. cbn [drop_while].
+  destruct (is_space_go c) eqn:E; [|discriminate].
+  destruct x as [|d x']; [cbn [last] in H; congruence|]. apply IH; [discriminate|exact H].
+Qed.
+
+Lemma dw_app_ns x E : drop_while is_space_go x <> [] -> drop_while is_space_go (x ++ E) = drop_while is_space_go x ++ E.
+Proof.
+  induction x as [|c x IH]; intro H; [cbn in H; congruence|]. cbn [app drop_while] in *.
+  destruct (is_space_go c); [apply IH; exact H|reflexivity].
+Qed.
+
+Lemma dwe_tail A E E' : dwe is_space_go E = dwe is_space_go E' -> dwe is_space_go (A ++ E) = dwe is_space_go (A ++ E').
+Proof. intro H. rewrite !dwe_app, H. reflexivity. Qed.
+
+(* same text behind front gaps that differ by blank items only, and with end trivia lists that
+   differ by trailing blank items only *)
+Lemma trim_text cs t' ce : t' <> [] -> is_space_go (last t' 0%N) = false -> TRM ce ->
+  trim_space ((G [] 0 (drop_blank_items cs) ++ t') ++ gend indent (tb ce)) =
+  trim_space ((G [] 0 cs ++ t') ++ gend indent ce).
+Proof.
+  intros Ne Hl R. rewrite !trim_space_dwe.
+  assert (N1 : forall b, drop_while is_space_go (b ++ t') <> []).
+  { intro b. apply dw_ns; [destruct b; [exact Ne|discriminate]|]. rewrite (last_app_ne b t' Ne). exact Hl. }
+  rewrite (dw_app_ns (G [] 0 (drop_blank_items cs) ++ t') _ (N1 _)), (dw_app_ns (G [] 0 cs ++ t') _ (N1 _)).
+  rewrite <- (dw_G0 cs t').
+  apply dwe_tail. unfold gend. apply eq_sym. apply (dwe_rc_tb indent indent_blank ce 0 R).
+Qed.
+
+Lemma trim_gend ce : TRM ce -> trim_space (gend indent ce) = rc0 (ind 0) (tb (drop_blank_items ce)).
+Proof.
+  intro R. rewrite trim_space_dwe. unfold gend. destruct ce as [|c ce'] eqn:E; [reflexivity|]. rewrite <- E in *.
+  rewrite <- (app_nil_r (PrettyWr.rc indent ce 0)), (dw_rc indent indent_blank ce 0 [] ltac:(rewrite E; discriminate)).
+  pose proof (drop_blank_Forall _ _ R) as Rd.
+  destruct (drop_blank_items ce) as [|d ds]; [reflexivity|]. rewrite app_nil_r.
+  apply dwe_rc0_all; [apply ind_ws; exact indent_blank|exact Rd].
+Qed.
+
+Lemma strip_idem ce : tb (drop_blank_items (tb (drop_blank_items ce))) = tb (drop_blank_items ce).
+Proof. rewrite (drop_blank_fix _ (tb_nbh _ (drop_blank_nbh ce))). apply tb_tb. Qed.
+
+Lemma code_pretty' m p :
+  r_code (compile (cfg_pretty indent true m) p) =
+  clean_empty_lines (w_buf (wstep pc (prun (ps [] [] 0 SourceMap.mapper_new)
+       (sep_map [WNewline] (fun stmt => write_stmt stmt ++ []) (p_stmts p))) (WComments (t_comments (p_eof p))))).
+Proof. apply code_pretty. Qed.
+
+Theorem relex_TP : forall p toks m,
   Forall TP toks -> m_program p toks = true -> wf_program p = true ->
   exists r, reparse (cfg_pretty indent true m) p = Some r /\
-            norm_boundaries (boundary_trivia (pr_program r)) = norm_boundaries (boundary_trivia p).
+            norm_boundaries (boundary_trivia (pr_program r)) = norm_boundaries (boundary_trivia p) /\
+            r_code (compile (cfg_pretty indent true m) (pr_program r)) = r_code (compile (cfg_pretty indent true m) p).
 Proof.
   intros [ss eof] toks m F Hm Hw. unfold m_program, wf_program in *. cbn [p_stmts p_eof] in *.
   apply andb_true_iff in Hm as [Heof Hm]. apply Z.eqb_eq in Heof.
@@ -3583,11 +4220,13 @@ Proof.
     inversion Fe; assumption. }
   destruct Te as (TLe & _ & Ce & _).
   pose proof (TL_eof_lit _ TLe Heof) as Leof.
-  unfold reparse. rewrite code_pretty. cbn [p_stmts p_eof].
   destruct ss as [|s ss].
   - (* no statement *)
-    cbn [sep_map]. rewrite prun_nil, buf_comments. cbn [app].
-    rewrite clean_rta, trim_space_dwe.
+    assert (HT : r_code (compile (cfg_pretty indent true m) (mkprogram [] eof)) =
+                 rta (dwe is_space_go (drop_while is_space_go (gend indent (t_comments eof)))) []).
+    { rewrite code_pretty'. cbn [p_stmts p_eof sep_map]. rewrite prun_nil, buf_comments. cbn [app].
+      rewrite clean_rta, trim_space_dwe. reflexivity. }
+    unfold reparse. rewrite HT.
     pose proof (rta_trv_end _ (dwe_trv_end _ (dw_trv_end _ (gend_trv_end indent indent_blank _ (proj1 Ce))))) as TY.
     destruct (tokenize_eof_only_c _ TY) as (teof & Tok & Eeof & Lit & Cm). rewrite Tok.
     set (p' := mkprogram [] teof).
@@ -3595,30 +4234,40 @@ Proof.
     { unfold m_program, p'. cbn [p_eof p_stmts m_stmts]. rewrite Eeof.
       change (T_EOF =? T_EOF) with true. cbn [andb]. apply tok_eqb_refl. }
     destruct (parse_complete p' _ Mp eq_refl) as (r & Hr & Pr & Er & _).
-    exists r. split; [exact Hr|].
-    rewrite Pr. unfold boundary_trivia, p'. cbn [p_stmts p_eof bnd_stmts app norm_boundaries].
-    rewrite Cm, (tcm_gend_both _ Ce), trim_both. reflexivity.
+    exists r. split; [exact Hr|]. rewrite Pr. split.
+    + unfold boundary_trivia, p'. cbn [p_stmts p_eof bnd_stmts app norm_boundaries].
+      rewrite Cm, (tcm_gend_both _ Ce), trim_both. reflexivity.
+    + rewrite code_pretty'. unfold p'. cbn [p_stmts p_eof sep_map]. rewrite prun_nil, buf_comments. cbn [app].
+      rewrite clean_rta, Cm, (tcm_gend_both _ Ce). rewrite <- trim_space_dwe.
+      destruct Ce as [_ Re].
+      rewrite (trim_gend (t_comments eof) Re).
+      rewrite (trim_gend _ (TRM_tb _ (drop_blank_Forall _ _ Re))), strip_idem. reflexivity.
   - (* statements *)
-    assert (Fp : Forall (fun x => PSo indent ((fun stmt => write_stmt stmt ++ []) x) x) (s :: ss)).
+    assert (Fp : Forall (fun x => PSo indent qid ((fun stmt => write_stmt stmt ++ []) x) x) (s :: ss)).
     { apply Forall_forall. intros x Hx. apply PSo_plain. exact (proj1 (Forall_forall _ _) Js x Hx). }
-    destruct (PSS_sep indent _ ss s Fp [] [] 0 SourceMap.mapper_new ltac:(lia) pend_ok_nil)
-      as (g1 & body & W & Gg & Hs & Lx & tf & Ftf & _ & Gf).
-    rewrite W, buf_comments. cbn [app].
-    destruct Gg as [Tg1 _]. destruct Hs as [[[Hs1 Hs2] Hs3] Se].
+    assert (Hf : forall x B pd0 lv0 mp0, prun (ps B pd0 lv0 mp0) (write_stmt x ++ []) = prun (ps B (qid pd0) lv0 mp0) (write_stmt x)).
+    { intros x B pd0 lv0 mp0. rewrite app_nil_r. reflexivity. }
+    destruct (PSS_sep indent qid _ ss Hf s Fp [] [] 0 SourceMap.mapper_new ltac:(lia) pend_ok_nil)
+      as (g01 & g1 & body & W & Gg & Hs & Lx & (tf & Ftf & Gf0 & Gf) & Gf1).
+    set (T := (g1 ++ body) ++ gend indent (t_comments eof)).
+    assert (HT : r_code (compile (cfg_pretty indent true m) (mkprogram (s :: ss) eof)) = clean_empty_lines T).
+    { rewrite code_pretty'. cbn [p_stmts p_eof]. rewrite W, buf_comments. reflexivity. }
+    destruct Gg as [Tg1 Wg1]. destruct Hs as [[[Hs1 Hs2] Hs3] Se].
     assert (Nb : body <> []) by (intro E; subst body; cbn in Hs2; congruence).
-    rewrite clean_rta, <- app_assoc.
-    rewrite (trim_space_shape g1 body (gend indent (t_comments eof)) Tg1 Nb Hs3 (send_nsp' _ Se)).
     set (Ke := rta (dwe is_space_go (gend indent (t_comments eof))) []).
-    rewrite !rta_app. fold Ke.
     assert (TK : trv_end Ke) by (apply rta_trv_end, dwe_trv_end, gend_trv_end; [exact indent_blank|exact (proj1 Ce)]).
     assert (HZ : rta body Ke <> [] /\ isWhitespace (hd 0%N (rta body Ke)) = false).
     { destruct body as [|c body']; [congruence|]. cbn [hd] in Hs1. rewrite (rta_cons_nb c body' Ke (ws_nz _ Hs1)).
       split; [discriminate|exact Hs1]. }
     destruct HZ as [Z1 Z2].
     destruct (rta_trv_c _ (dw_trv _ Tg1) (rta body Ke) Z1 Z2) as (g1' & E1 & T1' & C1').
-    rewrite E1.
     set (Y := g1' ++ rta body Ke).
-    destruct (Lx Ke g1' (lx_init Y) T1' eq_refl) as (ss' & ts & l1 & L & R1 & M & Sh & rest' & B' & N').
+    assert (HY : clean_empty_lines T = Y).
+    { unfold T. rewrite clean_rta, <- app_assoc.
+      rewrite (trim_space_shape g1 body (gend indent (t_comments eof)) Tg1 Nb Hs3 (send_nsp' _ Se)).
+      rewrite !rta_app. fold Ke. exact E1. }
+    unfold reparse. rewrite HT, HY.
+    destruct (Lx Ke g1' (lx_init Y) T1' eq_refl) as (ss' & ts & l1 & L & R1 & M & Sh & (rest' & B' & N') & (rs & EF1 & EF2)).
     assert (TK1 : trv_end (l_rest l1)) by (rewrite R1; exact TK).
     pose proof (next_token_end l1 TK1) as Eeof. pose proof (next_token_eof_lit l1 Eeof) as Lit.
     pose proof (next_token_end_c l1 TK1) as Ceof.
@@ -3636,12 +4285,45 @@ Proof.
     assert (Wf : wf_program p' = true).
     { unfold wf_program, p'. cbn [p_stmts]. rewrite <- wf_stmts_shape, Sh, wf_stmts_shape. exact Hw. }
     destruct (parse_complete p' _ Mp Wf) as (r & Hr & Pr & Er & _).
-    exists r. split; [exact Hr|].
-    rewrite Pr. unfold boundary_trivia, p'. cbn [p_stmts p_eof].
-    rewrite B', (bnd_stmts_cons s), Ftf. cbn [trivia_of app].
-    rewrite !norm_boundaries_two. rewrite N'. rewrite (bnd_stmts_cons s), Ftf. cbn [trivia_of app tl].
-    rewrite C1', Gf, trim_first_drop.
-    rewrite Ceof, R1. unfold Ke. rewrite (tcm_gend_end _ Ce), trim_last_of_tb. reflexivity.
+    assert (Ce' : t_comments teof = tb (t_comments eof)).
+    { rewrite Ceof, R1. unfold Ke. apply (tcm_gend_end _ Ce). }
+    exists r. split; [exact Hr|]. rewrite Pr. split.
+    + unfold boundary_trivia, p'. cbn [p_stmts p_eof].
+      rewrite B', (bnd_stmts_cons s), Ftf. cbn [trivia_of app].
+      rewrite !norm_boundaries_two. rewrite N'. rewrite (bnd_stmts_cons s), Ftf. cbn [trivia_of app tl].
+      rewrite C1', Gf, trim_first_drop.
+      rewrite Ce', trim_last_of_tb. reflexivity.
+    + (* the second printing *)
+      rewrite <- HY. rewrite code_pretty'. unfold p'. cbn [p_stmts p_eof].
+      rewrite EF1. unfold qid at 1.
+      assert (Cm1 : tcm g1' = drop_blank_items (tcm g1)).
+      { rewrite C1', Gf, Gf0. destruct (t_comments tf); reflexivity. }
+      pose proof (Gf1 (ST_nil indent 0)) as Hg01. unfold qid in Hg01.
+      pose proof (EF2 ST_lf0 SourceMap.mapper_new) as Run1. cbn [app] in Run1.
+      rewrite Cm1.
+      assert (HI : Ieq g01 (G [] 0 (drop_blank_items (tcm g1)))).
+      { rewrite <- Hg01. apply Ieq_eb; apply G0_eb. }
+      destruct (sim_run indent g01 _ HI rs [] [] 0 SourceMap.mapper_new false) as (t' & pd' & lv' & pn' & Hsim).
+      pose proof (Hsim g01 (or_introl eq_refl)) as S1. pose proof (Hsim _ (or_intror eq_refl)) as S2.
+      unfold wst in S1, S2. rewrite !app_nil_r in S1, S2.
+      unfold PrettyWr.prun, ps in Run1. rewrite S1 in Run1. injection Run1 as Eb Epd Elv Epn. subst pd' lv' pn'.
+      cbn [app]. unfold PrettyWr.prun, ps at 1. rewrite S2.
+      change (mkwstate (G [] 0 (drop_blank_items (tcm g1)) ++ t') [] 0 SourceMap.mapper_new false)
+        with (ps (G [] 0 (drop_blank_items (tcm g1)) ++ t') [] 0 SourceMap.mapper_new).
+      rewrite buf_comments, Ce'.
+      unfold T. rewrite <- Eb, <- Hg01.
+      assert (Nt : t' <> [] /\ is_space_go (last t' 0%N) = false).
+      { assert (Q : is_space_go (last (g01 ++ t') 0%N) = false).
+        { rewrite Eb, (last_app_ne g1 body Nb). exact (send_nsp' _ Se). }
+        destruct t' as [|x t''].
+        - exfalso. rewrite app_nil_r in Q, Eb.
+          destruct (G0_eb (tcm g1)) as [E0|[b0 E0]]; rewrite Hg01 in E0.
+          + rewrite E0 in Eb. symmetry in Eb. apply app_eq_nil in Eb as [_ Eb]. exact (Nb Eb).
+          + rewrite E0, last_last in Q. discriminate Q.
+        - split; [discriminate|]. rewrite (last_app_ne g01 (x :: t'') ltac:(discriminate)) in Q. exact Q. }
+      destruct Nt as [Nt1 Nt2].
+      rewrite !clean_rta. f_equal.
+      apply trim_text; [exact Nt1|exact Nt2|exact (proj2 Ce)].
 Qed.
 
 End Final.
@@ -3653,7 +4335,20 @@ Theorem boundary_trivia_preserved : forall src toks p indent m,
             norm_boundaries (boundary_trivia (pr_program r)) = norm_boundaries (boundary_trivia p).
 Proof.
   intros src toks p indent m Ht SS TS Hm Hw Hb.
-  exact (boundary_TP indent Hb p toks m (lexed_TP src toks Ht SS TS) Hm Hw).
+  destruct (relex_TP indent Hb p toks m (lexed_TP src toks Ht SS TS) Hm Hw) as (r & H1 & H2 & _).
+  exists r. split; assumption.
+Qed.
+
+Theorem pretty_idempotent : forall src toks p indent m,
+  tokenize src = Some toks -> strings_stable toks = true -> literals_trim_safe toks = true ->
+  m_program p toks = true -> wf_program p = true -> blank_str indent ->
+  exists r, reparse (cfg_pretty indent true m) p = Some r /\
+            r_code (compile (cfg_pretty indent true m) (pr_program r)) = r_code (compile (cfg_pretty indent true m) p).
+Proof.
+  intros src toks p indent m Ht SS TS Hm Hw Hb.
+  destruct (relex_TP indent Hb p toks m (lexed_TP src toks Ht SS TS) Hm Hw) as (r & H1 & _ & H3).
+  exists r. split; assumption.
 Qed.
 
 Print Assumptions boundary_trivia_preserved.
+Print Assumptions pretty_idempotent.
